@@ -12,1778 +12,863 @@ Definition show_fres (r : fres) : string :=
   end.
 Definition check (rs : list rune) : string := digest (show_fres (format_res rs)).
 Definition full (rs : list rune) : string := show_fres (format_res rs).
-Eval vm_compute in ("<<<M3549>>>" ++ check (runes_of_ascii "// top
-options // c0a
-  // c0b
-{
-    // c1
-StringPrefixLenType // c2
-= u8 ; ArrayPrefixLenType // c6
-= // c7
-u32
-    // c8
-; // c9
-FixedStringPadFromLeft
-    // c10
-= // c11a
-  // c11b
-false // c12a
-  // c12b
-;
-    // c13
-FixedStringPadChar = ' ' ; // c17a
-  // c17b
-} // c18a
-  // c18b
-packet Party // c20a
-  // c20b
-{ // c21a
-  // c21b
-repeat
-    // c22
-i16 // c23a
-  // c23b
-Qty
-    // c24
-, // c25a
-  // c25b
-repeat string // c27
-Tail // c28a
-  // c28b
-, i8 OrderId // c31a
-  // c31b
-, // c32a
-  // c32b
-i8 msgKind // c34a
-  // c34b
-, // c35a
-  // c35b
-} packet Ack // c38
-{
-    // c39
-Party // c40a
-  // c40b
-, repeat // c42a
-  // c42b
-InRef20
-    // c43
-{ Party // c45a
-  // c45b
-, int8 // c47a
-  // c47b
-tag7
-    // c48
+Eval vm_compute in ("<<<M1428>>>" ++ check (runes_of_ascii "options { // c1a
+  // c1b
+LittleEndian
+    // c2
+=
+    // c3
+true
+    // c4
+; // c5a
+  // c5b
+StringPrefixLenType = // c7a
+  // c7b
+u32 ; FixedStringPadChar // c10
+=
+    // c11
+'0' ; // c13a
+  // c13b
+} // c14
+packet // c15a
+  // c15b
+Logout { repeat // c18
+InMsgkind49 // c19a
+  // c19b
+{ u8 pad0 , // c23
+} // c24
 ,
-    // c49
-char[ // c50a
-  // c50b
-5 // c51a
-  // c51b
-] OrderId // c53a
+    // c25
+repeat // c26
+char[ // c27
+5 ] seqNo // c30
+, // c31a
+  // c31b
+repeat u8 // c33a
+  // c33b
+price // c34
+, // c35
+}
+    // c36
+packet // c37
+Party { // c39a
+  // c39b
+zchar[ // c40a
+  // c40b
+7 // c41a
+  // c41b
+] Qty // c43a
+  // c43b
+, // c44a
+  // c44b
+} // c45a
+  // c45b
+packet // c46
+Logon
+    // c47
+{ repeat // c49
+InRef10
+    // c50
+{ string
+    // c52
+price // c53a
   // c53b
-, zchar[ 7 // c56
-] // c57
-Tail // c58a
-  // c58b
-, // c59
-char[] // c60a
-  // c60b
-count // c61
-, // c62a
-  // c62b
-InPrice45 // c63
-{ // c64
-Party , // c66a
-  // c66b
-char[
+, // c54
+char[]
+    // c55
+sym , // c57
+repeat
+    // c58
+Logout // c59a
+  // c59b
+,
+    // c60
+} // c61
+,
+    // c62
+repeat char[ // c64
+3 // c65a
+  // c65b
+] count
     // c67
-1
-    // c68
-]
-    // c69
-Px ,
+, repeat // c69a
+  // c69b
+Party ,
     // c71
-} // c72a
+char[] // c72a
   // c72b
-, } // c74a
+tag7
+    // c73
+, // c74a
   // c74b
-, // c75a
-  // c75b
-char[ // c76
-12
-    // c77
-]
-    // c78
-price
-    // c79
-, // c80
-int8
-    // c81
-sym // c82
-, // c83
-} packet Reject // c86
+@rightPad ( // c76a
+  // c76b
+'0' // c77a
+  // c77b
+) // c78a
+  // c78b
+char[ // c79
+2 // c80
+] // c81
+clOrdID // c82
+, // c83a
+  // c83b
+} // c84
+packet // c85a
+  // c85b
+Order
+    // c86
 {
     // c87
-repeat InPrice47 // c89
-{ // c90a
-  // c90b
-Party , // c92a
-  // c92b
-} , // c94a
-  // c94b
-zchar[ // c95a
-  // c95b
-4 // c96
-] // c97
-x // c98
-, // c99
-repeat Ack
-    // c101
-, // c102
-zchar[ // c103a
-  // c103b
-2 // c104a
-  // c104b
-] // c105a
-  // c105b
-Ref ,
-    // c107
-repeat Party
-    // c109
-, // c110a
-  // c110b
-} // c111
-packet Cancel // c113
-{ // c114a
-  // c114b
-Reject ,
-    // c116
-repeat string // c118a
-  // c118b
-f1 ,
-    // c120
-uint16 // c121a
-  // c121b
-OrderId
-    // c122
-,
-    // c123
-u8 // c124
-Acct , // c126a
-  // c126b
-int8
-    // c127
-msgKind , } // c130
-root packet // c132
-Fill
-    // c133
-{ u8 // c135a
-  // c135b
-count , char[] // c138
-tag7 ,
-    // c140
-zchar[ // c141a
-  // c141b
-7 ]
-    // c143
-Acct // c144a
-  // c144b
-, // c145a
-  // c145b
-u32 // c146
-OrderId ,
-    // c148
-u32 Note
-    // c150
-@lengthOf( // c151a
-  // c151b
-Body // c152
-) // c153
-, // c154a
-  // c154b
-match
-    // c155
-OrderId // c156
-as // c157a
-  // c157b
-Body
-    // c158
-{ // c159a
-  // c159b
-106
-    // c160
-: // c161
-Cancel
-    // c162
-, 196
-    // c164
-: // c165
-Reject // c166
-, // c167
-74 // c168
-: Party ,
-    // c171
-75 : // c173
-Ack
-    // c174
-, } , // c177a
-  // c177b
-} // c178a
-  // c178b
-")).
-Eval vm_compute in ("<<<M3537>>>" ++ check (runes_of_ascii "// top
-options
-    // c0
-{ // c1
-StringPrefixLenType // c2
-= u16 // c4a
-  // c4b
-; ArrayPrefixLenType
-    // c6
-=
-    // c7
-u32
-    // c8
-; // c9a
-  // c9b
-FixedStringPadFromLeft
-    // c10
-= // c11
-false // c12a
-  // c12b
-; // c13
-FixedStringPadChar // c14a
-  // c14b
-=
-    // c15
-'0' // c16a
-  // c16b
-; // c17
-}
-    // c18
-packet Logout { // c21
-f64 // c22a
-  // c22b
-f1 // c23
-, // c24a
-  // c24b
-i16
-    // c25
-Note // c26a
-  // c26b
-, @rightPad // c28
-( // c29
-'\x00' // c30
-) char[ // c32
-11 // c33
-]
-    // c34
-Flags
-    // c35
-, } // c37a
-  // c37b
-packet Cancel // c39
+InTail13
+    // c88
 {
-    // c40
-float64 msgKind // c42
-,
-    // c43
-} // c44a
-  // c44b
-packet
-    // c45
-Reject { // c47
-InQty43 // c48a
-  // c48b
-{ // c49a
-  // c49b
-float32 // c50
-sym
-    // c51
-, char[ // c53a
-  // c53b
-10
-    // c54
-] // c55a
-  // c55b
-Tail // c56a
-  // c56b
-, uint8 // c58a
-  // c58b
-venue // c59
-, // c60a
-  // c60b
-uint16 // c61a
-  // c61b
-f1
-    // c62
-, // c63
-char[ 9 // c65
-] Acct // c67a
-  // c67b
-,
-    // c68
-}
-    // c69
-, // c70a
-  // c70b
-} // c71
-packet // c72a
-  // c72b
-Trade // c73
-{ // c74a
-  // c74b
-char[] x , zchar[ // c78
-6
-    // c79
-] Note ,
-    // c82
-repeat // c83
-Reject
-    // c84
-, // c85
-} root // c87
-packet Order // c89a
-  // c89b
-{ // c90a
-  // c90b
-Cancel // c91a
-  // c91b
-, Logout
+    // c89
+Party , } ,
     // c93
-, // c94
-u64
-    // c95
-Acct
-    // c96
-,
-    // c97
-u32 OrderId , match // c101
-OrderId // c102
-as // c103
-Body
+repeat char[ // c95a
+  // c95b
+4 ] count , // c99a
+  // c99b
+}
+    // c100
+root // c101
+packet // c102a
+  // c102b
+Cancel // c103
+{
     // c104
-{
-    // c105
-[ // c106
-127 // c107a
-  // c107b
-, // c108
-70 ]
-    // c110
-: // c111a
-  // c111b
-Reject // c112a
-  // c112b
-, // c113
-177 : // c115a
-  // c115b
-Trade // c116
-,
-    // c117
-58 // c118a
-  // c118b
-: // c119a
-  // c119b
-Logout // c120
-,
-    // c121
-75 // c122
-:
-    // c123
-Cancel ,
-    // c125
-} // c126
-, u32 // c128a
-  // c128b
-Tail // c129
-@calculatedFrom(
-    // c130
-""CRC32"" // c131
-) // c132
-, } // c134
-")).
-Eval vm_compute in ("<<<M180>>>" ++ check (runes_of_ascii "// @lengthOf(
-MetaData
-zchar {string
-o
-`crlf
-line`	, char[]
-pack // c
-`crlf
-line` , char[]
-    // trailing space 
-    Foo,
-} options { stringy =
-""`tick`""
-    } packet leftPad {
-    packetx
-    @lengthOf(  roots), @lengthOf(int
-// a // b
-// " ++ [27880; 37322]%N ++ runes_of_ascii "
-) @calculatedFrom( ""a\""b"" )
-    @calculatedFrom( """ ++ [28040; 24687]%N ++ runes_of_ascii """ ) int32
-MetaDataX `" ++ [233]%N ++ runes_of_ascii "` // " ++ [27880; 37322]%N ++ runes_of_ascii "
-, u8 int// `tick` ""quote"" 'q'
-,
-@lengthOf( options1
-    ) repeat u8 BodyLength// `tick` ""quote"" 'q'
-,
-    @tag( 1
-    ) Logon
-    ,repeat int32 u8x
-`say ""hi""`, match int
-as
-charz	{ ""abc"" : roots } ,string_ {zchar	@lengthOf( calculatedFrom ) ``
-,
-} , } root packet lengthOf {
-@tag( 4294967296 )A // packet A { u8 x, }
-@lengthOf( i64_ )`doc` , body@lengthOf( lengthOf ) `it's`
-    // packet A { u8 x, }
-    , zchar[ 10 ] // " ++ [27880; 37322]%N ++ runes_of_ascii "
-i8i8, @calculatedFrom( """ ++ [233]%N ++ runes_of_ascii "t" ++ [233]%N ++ runes_of_ascii """	) i64 int `u8 x,`,	repeat trueish { string  options1 , zchar[
-    0123456789 ]_x
-`tab	here` ,
-Pad
-    { repeat string repeatCount , repeat string _x , Packet
-@lengthOf( roots ) `
-`
-    , string crc@calculatedFrom(""abc""),
-} , match i8i8 as  string_ {// c
-[ ""it's""
-]
-:
-options1 ,
-//
-// @lengthOf(
-""a	b"":
-string_ , [
-""a	b""
-, 00 ] //	t
-: // `tick` ""quote"" 'q'
-metadata  ,
-    0 :	o
-    ""\" ++ [233]%N ++ runes_of_ascii """
-    : Pad // packet A { u8 x, }
-,}
-,} , char[7 ]  i8i8 `tab	here`
-    , roots { repeat uint8 _x`tab	here`,	}  ,
-    repeat int64 f32a	,
-match asx
-as calculatedFrom { 65535 : asx
-// trailing space 
-//x
-, [ 1
-] :  uint8x,
-42 :x
-[ ""x y"" , ""1"",""`tick`"" , ""1"" ,
-""1""
-,	""a	b"" ]
-    :
-    MetaDataX }
-,} MetaData
-chars
-    { }")).
-Eval vm_compute in ("<<<M484>>>" ++ check (runes_of_ascii "packet stringy
-//	t
-/// triple
-{ @tag(0123456789 )
-match matchKey as
-    // @lengthOf(
-    i64_ { 7// a // b
-:
-    // " ++ [27880; 37322]%N ++ runes_of_ascii "
-    Header
-    [ /// triple
-""a\""b"", 65535 ]:  stringy ,  ""abc"": // a // b
-options1 ,0123456789 :
-u ,
-""1"" :lengthOf , }
-    ,repeat uint64 uint8x	`two words`
-, @rightPad ( ) @rightPad ('0' )repeat As
-body`doc`
-    //
-    ,repeat // @lengthOf(
-zchar {len, }  , @calculatedFrom(
-    ""abc"" )	@calculatedFrom( ""1""
-)@rightPad (
-    '0') char[]
-    zchar @lengthOf(
-u ) `line1
-line2`
-, Header @calculatedFrom(
-// c
-// packet A { u8 x, }
-""CRC32"" )
-`{ , }`,
-u64 A `tab	here`
-,@leftPad ( ) @tag( 10) @tag( 4294967296)
-o `doc` , uint8	a1
-    /// triple
-    , repeat f64 leftPad ,
-} MetaData _x
-{ rootA float
-    `tab	here` , tag
-    o`crlf
-line`
-,} packet Pad {
-    match MetaDataX as
-A { [
-    4294967296 // a // b
-, 42 ,""`tick`"" ,0
-    ,10	,  1
-, 10
-, 3 ]
-    :
-// packet A { u8 x, }
-// @lengthOf(
-A  ,""packet"" : Packet }
-    //x
-    , @calculatedFrom( ""CRC32"" ) // @lengthOf(
-crc // a // b
-@lengthOf(// packet A { u8 x, }
-leftPad )`say ""hi""` , BodyLength options1 `say ""hi""`
-,
-    repeat len
-    // " ++ [128512]%N ++ runes_of_ascii " emoji
-    {
-    // a // b
-    char[]
-Header
-    // `tick` ""quote"" 'q'
-    ,
-i16 rootA , string
-uint8x @lengthOf( Header  )
-`it's` , repeat u16 x_y_z`
-`, } ,	} packet As { x MetaDataX ,
-}
-")).
-Eval vm_compute in ("<<<M4242>>>" ++ check (runes_of_ascii "
-// top
-  	options
-    // c0
-    { 	 // c1
-  LittleEndian 
-    // c2
-		=// c3
-false
-
-    ;
-StringPrefixLenType 	 // c6a
-		// c6b
-=
-    // c7
-  	u8
-    // c8
-      ;// c9a
-// c9b
-ArrayPrefixLenType =  // c11
-		u16
-    ; 
-    // c13
-  FixedStringPadFromLeft
-
-=  // c15a
-  // c15b
-
-  false// c16a
-	// c16b
-  ; // c17a
-	// c17b
-	  }  // c18
-		packet// c19a
-  // c19b
-
-Heartbeat{ // c21a
-		// c21b
-	u8
-// c22
-  seqNo 	 // c23a
-  	// c23b
-    , 	 // c24a
-	// c24b
-    @rightPad ( '\x00'// c27
-		)	char[
-// c29
-		8// c30a
-
-	// c30b
-
-	]// c31
-  x
-        // c32
-	  ,// c33
-  }  // c34
-  root  // c35
-	  packet  Trade // c37
-
-  {
-// c38
-repeat 	 // c39
-		Heartbeat// c40
-  ,
-
-float32
-        // c42
-OrderId  // c43a
-
-	// c43b
-	,	// c44
-
-  i64
-    // c45
-      Acct , // c47a
-  // c47b
-  u16
-    // c48
-      Qty	// c49a
-      // c49b
-, // c50
-u16// c51a
-  	// c51b
-  clOrdID
-// c52
-  ,	// c53a
-    // c53b
-
-match	clOrdID // c55
-
-	as// c56a
-
-// c56b
-
-Body 
-	    // c57
-	{ 
-
-    // c58
-  131 // c59a
-      // c59b
-    : Heartbeat
-
-, // c62a
-
-// c62b
-    	},
-        // c64
-	  u16	// c65a
-  // c65b
-	sym 	 // c66
-  @calculatedFrom( 	 // c67a
-    // c67b
-	""CRC32"" // c68
-  ) // c69a
-	  // c69b
-
-,
-	    // c70
-	  }")).
-Eval vm_compute in ("<<<M371>>>" ++ check (runes_of_ascii "MetaData i8i8
-    // trailing space 
-    { Pad rootA
-`tab	here` //
-, x_y_z
-metadata
-,zchar[ 255] x_y_z `doc` , metadata i8i8 , uint8x
-    leftPad
-    `say ""hi""` , int32
-charz
-    `" ++ [28040; 24687; 31867; 22411]%N ++ runes_of_ascii "` , } packet
-len {  char[
-    255 ]
-f32a//x
-@calculatedFrom(
-""a	b"") `// not a comment` ,f64 u8x
-//
-// `tick` ""quote"" 'q'
-,
-options1
-{string charz `u8 x,` ,string_ // packet A { u8 x, }
-@calculatedFrom( // " ++ [27880; 37322]%N ++ runes_of_ascii "
-""a	b""
-) , repeat falsey {a1 `it's`  , stringy
-@lengthOf( Foo
-    )
-,	repeat  zchar[ 10  ]Logon
-`line1
-line2` ,  uint16 repeatCount @lengthOf( options1 )
-    `doc`
-,	} , repeat //x
-u packetx, } , falsey
-x_y_z, char[]matchKey
-`u8 x,`
-, } packet float
-{ @lengthOf( Foo ) u16 a1 `crlf
-line` // `tick` ""quote"" 'q'
-,
-    // `tick` ""quote"" 'q'
-    @leftPad( )
-@lengthOf( string_// `tick` ""quote"" 'q'
-)
-    match
-asx as lengthOf{ """"
-: f32a , }
-,roots {
-f32 A `a\` , i8 trueish @lengthOf(rootA )
-    ,}
-    ,
-options1
-    @lengthOf(_x
-    )
-    , /// triple
-@lengthOf( asx// `tick` ""quote"" 'q'
-)
-    charz
-    // " ++ [27880; 37322]%N ++ runes_of_ascii "
-    ,
-    zchar[ 10 ] a1
-    @calculatedFrom(
-    ""// no comment"")
-`say ""hi""`
-, //x
-uint16 x @calculatedFrom( ""a\\"" )	,}")).
-Eval vm_compute in ("<<<M741>>>" ++ check (runes_of_ascii "options // packet A { u8 x, }
-{// @lengthOf(
-roots
-= false a1
-    = '0' // trailing space 
-; leftPad =true ;
-// a // b
-// " ++ [27880; 37322]%N ++ runes_of_ascii "
-Logon
-=
-    ""a	b""
-    // " ++ [128512]%N ++ runes_of_ascii " emoji
-    }
-    root packet	metadata
-    // packet A { u8 x, }
-    { tag @lengthOf( string_
-) `it's` , @leftPad (
-    ' '
-    ) @lengthOf(	trueish
-// a // b
-//
-)	@lengthOf(/// triple
-A )
-int64
-Packet
-@calculatedFrom( """" ) `
-`, u
-    f32a`` ,@calculatedFrom( ""abc""
-) @tag(255 )char[]
-//
-// a // b
-Logon @calculatedFrom(	""\" ++ [233]%N ++ runes_of_ascii """) , // trailing space 
-repeat char[ 7
-    ]a1
-    ,
-    char[] pack
-`u8 x,`
-    ,repeat
-    calculatedFrom `tab	here` , @tag(  1
-    ) u32 options1 , }options
-{ i8i8 =  4294967296 } packet // c
-roots {repeat charz x_y_z
-    , } packet
-msg_type  {
-@lengthOf( tag // c
-)
-i32
-Pad`" ++ [28040; 24687; 31867; 22411]%N ++ runes_of_ascii "` ,i64
-a1 ,metadata
-{repeat int8 float //	t
-, // `tick` ""quote"" 'q'
-Pad
-_x,
-f32 //
-pack ,
-// a // b
-// " ++ [27880; 37322]%N ++ runes_of_ascii "
-} ,
-    i8 repeatCount  , char
-matchKey , repeat trueish `u8 x,` ,
-    o // " ++ [128512]%N ++ runes_of_ascii " emoji
-leftPad ,
-char[] pack `it's` ,// c
-As{uint32  rootA @calculatedFrom(""it's"" ) `
-`, }
-,
-    // c
-    }")).
-Eval vm_compute in ("<<<M3210>>>" ++ check (runes_of_ascii "// top
-root
-    // c0
-packet // c1a
-  // c1b
-msg_type // c2a
-  // c2b
-{ // c3
-i64 // c4
-options1 // c5a
-  // c5b
-,
-    // c6
-@lengthOf( // c7a
-  // c7b
-f32a // c8
-) // c9
-repeat // c10
-uint16
-    // c11
-Foo
-    // c12
-, // c13a
-  // c13b
-@calculatedFrom(
-    // c14
-""x y""
-    // c15
-) // c16a
-  // c16b
-repeat int64 // c18a
-  // c18b
-pack // c19a
-  // c19b
-, // c20a
-  // c20b
-@leftPad // c21
-(
-    // c22
-' '
-    // c23
-) // c24a
-  // c24b
-uint8
-    // c25
-Foo , }
-    // c28
-packet rootA // c30a
-  // c30b
-{ // c31
-f32a // c32a
-  // c32b
-x
-    // c33
-`two words` // c34
-, char // c36
-asx // c37a
-  // c37b
-@lengthOf(
-    // c38
-falsey // c39a
-  // c39b
-) // c40a
-  // c40b
-`u8 x,` // c41a
-  // c41b
-, // c42
-@lengthOf( i64_
-    // c44
-)
-    // c45
-uint16 // c46
-chars // c47a
-  // c47b
-, // c48
-@tag( // c49a
-  // c49b
-0 // c50a
-  // c50b
-) string
-    // c52
-_x
-    // c53
-@calculatedFrom(
-    // c54
-""abc""
-    // c55
-) // c56a
-  // c56b
-`// not a comment`
-    // c57
-, // c58
-} // c59a
-  // c59b
-")).
-Eval vm_compute in ("<<<M1090>>>" ++ check (runes_of_ascii "
-options{ body = ""it's""
-; //
-Z9_ = string ;
-}
-    //x
-    packet
-x
-{repeat u128 { char[]u `a\`, } , @leftPad
-(  ' ' ) @tag(
-    00 ) @rightPad (
-    '0' )  tag ,repeat f64
-    // a // b
-    float, repeat string o ,repeat int16  float
-    ,
-@calculatedFrom( ""it's"" ) @rightPad ( '\x00')@lengthOf(
-lengthOf // " ++ [128512]%N ++ runes_of_ascii " emoji
-) f32
-    i8i8 ,
-    repeat f32 tag `// not a comment` ,
-@tag(
-// trailing space 
-/// triple
-42// trailing space 
-)x `" ++ [233]%N ++ runes_of_ascii "`
-    ,
-@lengthOf(
-Pad )
-    char[4294967296] repeatCount
-`` // c
-,
-@lengthOf( pack
-) @tag(
-    007  )	uint32 leftPad
-,
-    } // trailing space 
-root	packet int
-    { @tag( 10 ) Packet // `tick` ""quote"" 'q'
-@lengthOf(	MetaDataX ) , @rightPad
-( '0' ) char[] MetaDataX @calculatedFrom( ""{,}""
-)  `it's` , @tag(
-0) // `tick` ""quote"" 'q'
-@lengthOf(i64_
-)
-BodyLength,
-@tag(
-4294967296 ) repeat string Logon
-    `" ++ [233]%N ++ runes_of_ascii "`/// triple
-, @lengthOf( chars	)
-    @tag(
-10 ) @calculatedFrom( ""\" ++ [233]%N ++ runes_of_ascii """)char[] A @lengthOf( _x
-    ),
-    }
-")).
-Eval vm_compute in ("<<<M493>>>" ++ check (runes_of_ascii "packet
-    chars {// c
-string // " ++ [27880; 37322]%N ++ runes_of_ascii "
-metadata , i32 u8x @calculatedFrom( ""`tick`"" ) ,
-    repeat char[] stringy
-,
-char[ 10 ] pack
-    `u8 x,` // a // b
-,o ,
-falsey  @calculatedFrom(
-    //
-    ""`tick`""// c
-)
-    `it's`,
-    @leftPad
-// `tick` ""quote"" 'q'
-// a // b
-( )u32 body `u8 x,`,	@calculatedFrom(""packet"" // " ++ [128512]%N ++ runes_of_ascii " emoji
-)  char metadata
-`// not a comment`,
-    // " ++ [27880; 37322]%N ++ runes_of_ascii "
-    @lengthOf( A )
-    float64 _x @lengthOf(
-Header
-// " ++ [27880; 37322]%N ++ runes_of_ascii "
-// trailing space 
-) , body ,}
-    packet Header// trailing space 
-{ falsey
-// c
-// c
-,
-    match trueish as lengthOf { ""packet"" : i8i8 ""x y""  :
-falsey [
-""\" ++ [233]%N ++ runes_of_ascii """
-    ]: zchar	, 00 :
-    float ,
-""\n""	: f32a	, } , string A `two words`  ,repeat char[ 0
-    ] Z9_
-// c
-//
-`two words`,repeat Z9_ x , char
-    // `tick` ""quote"" 'q'
-    trueish,}MetaData x_y_z
-    { float32  x `a\` ,u128 i64_`a\`,
-    x_y_z trueish
-, u16 i64_ , }root
-packet pack { }options  { msg_type = 007 ; }")).
-Eval vm_compute in ("<<<M376>>>" ++ check (runes_of_ascii "packet options1 { repeat  matchKey `doc` , char[] string_
-    // " ++ [27880; 37322]%N ++ runes_of_ascii "
-    `
-`, // packet A { u8 x, }
-uint16 T , repeatCount
-    _x
-    ,} packet msg_type
-    { @lengthOf( Pad
-    )
-asx @calculatedFrom(
-    ""\" ++ [233]%N ++ runes_of_ascii """) ,  @tag( 4294967296
-) Logon `a\`,@tag( 0
-    )
-crc  @lengthOf(charz// " ++ [128512]%N ++ runes_of_ascii " emoji
-) `u8 x,`
-, char[	0	] f32a // " ++ [128512]%N ++ runes_of_ascii " emoji
-,  u8
-    A `line1
-line2`,Z9_ u `{ , }`
-, repeat uint8x `" ++ [28040; 24687; 31867; 22411]%N ++ runes_of_ascii "`	, int8 Packet@calculatedFrom( ""{,}""
-) ,
-    // packet A { u8 x, }
-    } packet A {
-// trailing space 
-// trailing space 
-@tag( 3)@tag(
-    /// triple
-    1
-    )
-u16 A// c
-, @tag(1 )
-match
-//
-// @lengthOf(
-roots as
-pack{ // c
-[
-    ""CRC32"" ] :
-i8i8
-""a\\""
-    : trueish , [ ""{,}"",	""" ++ [28040; 24687]%N ++ runes_of_ascii """ ] :
-    falsey
-    // `tick` ""quote"" 'q'
-    } // a // b
-, @rightPad// packet A { u8 x, }
-( ' ') int16 Packet `
-` , // `tick` ""quote"" 'q'
-repeat zchar[1
-] Pad  , // a // b
-}
-")).
-Eval vm_compute in ("<<<M855>>>" ++ check (runes_of_ascii "MetaData Logon {int x `u8 x,` , i16 calculatedFrom `say ""hi""` , trueish x_y_z `// not a comment`	, }
-options {len  = true	;} packet
-crc {
-@lengthOf( matchKey ) repeat  body
-{ uint64 chars
-    , match
-Packet as
-// " ++ [27880; 37322]%N ++ runes_of_ascii "
-// c
-float
-    {""// no comment"" :
-// packet A { u8 x, }
-// packet A { u8 x, }
-calculatedFrom	, } , u64 body  , i8i8
-lengthOf `doc`
-    , } , repeat // @lengthOf(
-o,
-match f32a
-    as int// `tick` ""quote"" 'q'
-{ 255 : u8x// c
-,""x y""	: As , ""\" ++ [233]%N ++ runes_of_ascii """ // packet A { u8 x, }
-:
-    _x 0 : _x ,
-    ""1""
-:
-uint8x
-    // trailing space 
-    , }
-// " ++ [128512]%N ++ runes_of_ascii " emoji
-//	t
-,match	falsey	as float  { [ ""`tick`"" ]:
-string_ , 10
-:  u8x ,"""" : crc// @lengthOf(
-,
-    /// triple
-    0
-: rootA// trailing space 
-, ""abc""  : i64_
-, } , @rightPad
-( ' ' ) repeat float32	o // trailing space 
-`// not a comment` ,o As `a\` ,	}
-
-")).
-Eval vm_compute in ("<<<M3527>>>" ++ check (runes_of_ascii "
-
-  options {	LittleEndian
-=
-true
-;
-StringPrefixLenType
-=
-    u64
-	;ArrayPrefixLenType=
-
-u8 
-; FixedStringPadChar
-
-=
-
-'0' 
-; } packet
-    Reject
-	{ i32 Ref, repeat
-
-    f64 OrderId  ,  repeat InNote12	{
-u8
-pad0
-,  } ,
-    @leftPad( 
-' '
-)
-	char[
-6 ]  count ,
-	}
-packet Logout	{
-    zchar[
-6
-    ]Tail
-	, repeat string venue
-,
-
-}	packet
-Cancel
-	{ 
-u64	count,repeat char[
-	5 ]lastPx
-    ,i64  Tail , repeat InF140	{ repeat 
 Logout
-	,  repeat Reject ,	}, }
-	root 
-packet
-Trade
-
-{
-
-repeat
-
-InMsgkind39	{
-repeat  Reject	,  char[4 ]Px 
-,}
+    // c105
+, @leftPad
+    // c107
+( // c108a
+  // c108b
+'0' ) char[ // c111a
+  // c111b
+9 // c112
+] // c113a
+  // c113b
+msgKind , // c115
+string // c116a
+  // c116b
+lastPx
+    // c117
+, // c118
+string // c119
+tag7
+    // c120
+, // c121
+zchar[
+    // c122
+1
+    // c123
+] // c124a
+  // c124b
+OrderId , // c126
+repeat Party , // c129
+u16 // c130a
+  // c130b
+sym // c131
 ,
-string Acct
-	, 
-uint16
-	price,f32
-
-OrderId 
+    // c132
+u16 Acct // c134a
+  // c134b
+@lengthOf( Body // c136
+)
+    // c137
+, match // c139
+sym as
+    // c141
+Body { [ 24 // c145a
+  // c145b
+, // c146a
+  // c146b
+44
+    // c147
+]
+    // c148
+: Logout
+    // c150
+, // c151
+160 // c152a
+  // c152b
+: Order // c154a
+  // c154b
+, // c155
+91 // c156a
+  // c156b
+: Logon // c158a
+  // c158b
+, // c159
+43 // c160a
+  // c160b
+: // c161
+Party // c162
+, } // c164a
+  // c164b
 ,
-u16 x ,	u16 clOrdID
-
-    @lengthOf( 
-Body )
-	,  match
-x
-
-    as
-Body
-
-{	178 
-:
-    Logout  ,
-13
-	:
-Cancel , 174 
-: 
-Reject 
-,
-	}
-    , u16	Flags @calculatedFrom(""CRC32""  )
-,
-
-    }
+    // c165
+u16 // c166
+Tail // c167a
+  // c167b
+@calculatedFrom( // c168a
+  // c168b
+""CRC32"" // c169a
+  // c169b
+) , // c171a
+  // c171b
+} // c172a
+  // c172b
 ")).
-Eval vm_compute in ("<<<M3684>>>" ++ check (runes_of_ascii "packet Header {
-    @lengthOf(BodyLength)
-    string body @lengthOf(zchar) `two words`,
-    @lengthOf(rootA)
-    i32 metadata `it's`,
-    @tag(00)
-    // trailing space 
-    msg_type @lengthOf(As),
-    int {
-        repeat string u128 `" ++ [233]%N ++ runes_of_ascii "`,
-        match MetaDataX as packetx {
-            [1, 0] : MetaDataX,
-            ""{,}"" : calculatedFrom,
-        },
-        // trailing space 
-        match asx as Logon {
-            7 : uint8x,
-            00 : x_y_z,
-            ""\" ++ [233]%N ++ runes_of_ascii """ : o,
-            """ ++ [233]%N ++ runes_of_ascii "t" ++ [233]%N ++ runes_of_ascii """ : chars,
-        },
-        body i64_ `crlf
-                line`,
-    },
-    a1 `line1
-        line2`,
-    // `tick` ""quote"" 'q'
-    // a // b
-    chars `// not a comment`,
-    @tag(7)
-    leftPad charz,
-    int64 a1 @calculatedFrom(""\n""),
-}")).
-Eval vm_compute in ("<<<M1086>>>" ++ check (runes_of_ascii "// " ++ [128512]%N ++ runes_of_ascii " emoji
-packet u128{ repeat
-MetaDataX
-    ,
-int64
+Eval vm_compute in ("<<<M1843>>>" ++ check (runes_of_ascii "
+// @lengthOf(
+	root	packet 
 leftPad
-, //	t
-@lengthOf(
-    matchKey ) //
-@calculatedFrom( """ ++ [28040; 24687]%N ++ runes_of_ascii """ )match T as Header{255 :repeatCount, ""it's""
-    : roots
-, },
+	{
+
+match  Logon as	msg_type
+
+{ ""it's""	:
+
+int
+, """ ++ [128512]%N ++ runes_of_ascii """
+: charz
+
+""a\\""
+	:
+    options1	,
+
 }
-//
-//	t
-packet MetaDataX{ repeat
-// a // b
-// packet A { u8 x, }
-chars
-asx  `tab	here`
-    , repeat o
-// c
+
+,	@rightPad
+(  ' ' 
+)
+
+    asx
+
+    `doc`
+	,  @leftPad 
+(
+
+'0' ) 
+uint32
+charz 
+,	@tag(
+255
+)
+zchar[	10
+	]
+	Pad
+
+``,	string	asx  `it's`
+
+, } packet 
+    // packet A { u8 x, }
 // trailing space 
-{ repeat _x { repeat uint32 charz`u8 x,` ,
-zchar[42  ] leftPad @calculatedFrom( """ ++ [28040; 24687]%N ++ runes_of_ascii """ ) `doc` , /// triple
-} ,  },  int16 u@lengthOf( f32a//	t
-) `tab	here` ,match f32a
-as i64_
-    { 00 :
-    len
-    // `tick` ""quote"" 'q'
-    , } ,
-    } MetaData
-    //x
-    pack { f32a
-packetx ,zchar[ 10 ] Header
-    `tab	here` , zchar[
-007
-    ]
-    string_ `crlf
-line`
-, char[]
-    matchKey , float64 float,}
-")).
-Eval vm_compute in ("<<<M3603>>>" ++ check (runes_of_ascii "packet rootA {
-    @tag(3)
-    zchar[00] x_y_z `" ++ [28040; 24687; 31867; 22411]%N ++ runes_of_ascii "`,
-    _x,
-    // a // b
-    float64 A @lengthOf(u8x),
-    u8 rootA `line1
-        line2`,
-    zchar[7] stringy,
-    match Header as f32a {
-        ""\" ++ [233]%N ++ runes_of_ascii """ : o,
-        [
-            4294967296, 7, 4294967296, ""packet"", ""a	b"",
-            ""CRC32"", 7, ""a	b""
-        ] : repeatCount,
-        ""a\""b"" : Header,
-        [""a\""b""] : crc,
-        [007, 007, ""abc""] : metadata,
-        4294967296 : chars,
-    },
-    @tag(1)
-    i8 matchKey `a\`,
-    // @lengthOf(
-    // " ++ [128512]%N ++ runes_of_ascii " emoji
-    @lengthOf(body)
-    tag,
-    @lengthOf(matchKey)
-    @lengthOf(o)
-    @lengthOf(pack)
-    repeat u {
-        calculatedFrom @lengthOf(falsey),
-    },
-}")).
-Eval vm_compute in ("<<<M3261>>>" ++ check (runes_of_ascii "// top
-MetaData
-    // c0
-x_y_z
-    // c1
+    Pad 
 {
-    // c2
-char
-    // c3
-body
-    // c4
+    @lengthOf(lengthOf)	@lengthOf(
+	crc  )u8x `a\`
+,	float64	f32a
+	@calculatedFrom(
+
+""a\""b"" ) `it's`
+	,
+
+    @lengthOf(options1
+    )	@tag(
+
+42
+)
+@calculatedFrom( 
+// a // b
+
+	//x
+  ""1""
+)
+	zchar[
+
+7
+] repeatCount
+	`say ""hi""` , @calculatedFrom(
+    ""// no comment"" )
+
+//x
+    zchar[
+
+    3	]
+	i8i8
+@calculatedFrom(
+
+""// no comment""
+)`" ++ [233]%N ++ runes_of_ascii "`	,
+@tag(//
+  65535	) 
+match	o
+	as float{[// @lengthOf(
+10]
+:
+len
+	}
+, @tag(
+
+3 //x
+    	)match
+
+repeatCount
+as Pad
+
+{
+    [""// no comment"",
+42, ""\n""
+
+,	007 ,	3 , ""// no comment""
+// c
+    ] 
+:
+	calculatedFrom  }
+    ,u8x{
+
+    repeat 
+string
+    x `it's`
+
+    ,
+x
+@calculatedFrom( """ ++ [128512]%N ++ runes_of_ascii """
+) //
+	,  falsey
+	{match f32a
+as// c
+
+  u128  {
+    [	""it's""
+    //x
+  , 0123456789,
+0 
 ,
-    // c5
-f64
-    // c6
-i8i8
-    // c7
-`two words`
+""" ++ [233]%N ++ runes_of_ascii "t" ++ [233]%N ++ runes_of_ascii """
+, 42 , 65535  // c
+, 
+1  ,
+255
+] :uint8x
+    ,
+0
+    :
+
+asx 
+, } ,  repeat
+
+    packetx
+
+u
+`{ , }`,
+    string Foo
+,x 
+@calculatedFrom( ""a	b""
+
+)  //	t
+      , } , o
+pack
+	,	}
+
+,  // a // b
+	  }
+packet	i64_ {
+	repeat	char[
+3 
+]
+    a1
+	, }options
+// a // b
+
+{ }
+")).
+Eval vm_compute in ("<<<M207>>>" ++ check (runes_of_ascii "
+root packet	msg_type {u128//
+, @calculatedFrom(
+""" ++ [233]%N ++ runes_of_ascii "t" ++ [233]%N ++ runes_of_ascii """ ) repeat char[
+    //
+    3]
+    metadata`crlf
+line`,
+char[255 ]	Pad
+,  asx @calculatedFrom(""packet"" )
+    , repeat stringy `tab	here`
+    ,
+//x
+//	t
+repeat //x
+As `two words`, @leftPad ( '\x00'
+    ) repeat matchKey`a\`	, @rightPad (' ' ) repeat/// triple
+Pad
+{ repeat
+    u
+,
+// trailing space 
+// packet A { u8 x, }
+repeat char[] uint8x , }
+    ,
+u128	{ repeat
+As `u8 x,` ,
+pack msg_type,	uint32 lengthOf @calculatedFrom( ""1""	), match roots as
+    // " ++ [128512]%N ++ runes_of_ascii " emoji
+    x{ ""{,}"" :
+    // " ++ [27880; 37322]%N ++ runes_of_ascii "
+    Pad
+    }
+    ,  } ,}
+root packet tag
+{string pack , } root
+packet u8x
+    {
+string
+    pack `doc` , @lengthOf( options1
+    )f32	matchKey @calculatedFrom( ""`tick`"" )
+`two words` , @leftPad (  '\x00' )@lengthOf( Packet) @tag( 007//x
+)
+int32
+    Pad	@calculatedFrom(""a\\""
+)
+, @calculatedFrom( """" ) string a1 @lengthOf( metadata ) ,match u128 as Foo {
+    [ ""`tick`"" ]
+: msg_type
+    ,
+    10 // a // b
+:
+msg_type, 00
+:  len, ""`tick`"" : _x ,1 : repeatCount
+    , [ 1 , //	t
+1 ] :
+    // packet A { u8 x, }
+    pack ,} , @leftPad ( )
+float64 pack
+    `
+` ,
+    }")).
+Eval vm_compute in ("<<<M1449>>>" ++ check (runes_of_ascii "options {
+    StringPrefixLenType = u32;
+    ArrayPrefixLenType = u8;
+    FixedStringPadFromLeft = false;
+}
+packet Logon {
+    i8 venue,
+    int16 f1,
+    zchar[8] Acct,
+    repeat InNote16 {
+        InQty73 {
+            float32 tag7,
+        },
+        f32 Acct,
+        zchar[5] sym,
+    },
+    uint16 Side2,
+    i32 lastPx,
+}
+packet Fill {
+    repeat InOrderid15 {
+        zchar[8] sym,
+        repeat char[2] OrderId,
+        repeat Logon,
+        InQty82 {
+            char[] Tail,
+            repeat Logon,
+            float64 price,
+            f64 Side2,
+        },
+        char[12] venue,
+        char[4] Px,
+    },
+    @rightPad('0') char[2] venue,
+    InPrice99 {
+        InAcct72 {
+            u8 pad0,
+        },
+        u32 OrderId,
+        Logon,
+    },
+}
+root packet Reject {
+    zchar[9] msgKind,
+    u32 venue,
+    u16 seqNo @lengthOf(Body),
+    match venue as Body {
+        57 : Fill,
+        8 : Logon,
+    },
+    u16 Tail @calculatedFrom(""CRC32""),
+}
+")).
+Eval vm_compute in ("<<<M1939>>>" ++ check (runes_of_ascii "
+options
+{
+    string_
+        //x
+		=char[ 7  ]; 
+}
+
+    options
+
+    { crc = float64;
+Logon
+= 
+false  // a // b
+
+As =
+
+'0'	f32a
+= 
+char[]
+	;	// packet A { u8 x, }
+  T = 00
+	} root
+	packet
+	x  {
+
+    @calculatedFrom(
+    ""1"" ) repeat
+
+    zchar[
+    255 ] 	 // " ++ [128512]%N ++ runes_of_ascii " emoji
+	  string_	,
+	} root packet 
+int{
+    @tag(
+
+4294967296
+
+    ) 
+char[ 255  // packet A { u8 x, }
+    ]  a1
+	,  repeat x `` , 
+char[]
+
+    packetx
+
+@lengthOf(
+
+    uint8x	)
+    `u8 x,` ,zchar[ 10
+]
+leftPad
+
+@calculatedFrom(
+""a	b"" )	,
+    lengthOf
+@calculatedFrom(  """"
+)
+    ,
+@calculatedFrom(
+	    /// triple
+    ""packet"")	i32
+
+    matchKey ,
+@rightPad
+
+() 
+zchar[  1
+	]	A
+	,
+
+    u32
+    Packet
+
+    @calculatedFrom( ""{,}"")
+`a\`
+
+, // c
+
+  repeat
+
+char[
+00]  Header  `say ""hi""`
+	//x
+  	,
+
+stringy
+trueish
+    `// not a comment` 
+, }")).
+Eval vm_compute in ("<<<M1948>>>" ++ check (runes_of_ascii "root packet lengthOf {
+    repeat char[] asx `// not a comment`,
+    lengthOf {
+        string options1,
+        char[] A @calculatedFrom(""\n""),
+        int16 trueish,
+    },
+    repeat int16 stringy,
+    string Logon `{ , }`,
+    @lengthOf(metadata)
+    match trueish as Foo {
+        00 : T,
+        7 : Z9_,
+    },
+    string_ a1 `" ++ [28040; 24687; 31867; 22411]%N ++ runes_of_ascii "`,
+}
+
+packet zchar {
+    @calculatedFrom(""x y"")
+    repeatCount `
+    `,
+    match stringy as u {
+        255 : charz,
+    },
+    zchar[0123456789] Z9_ @lengthOf(crc) `it's`,
+    @leftPad('\x00')
+    zchar[0] rootA @calculatedFrom(""CRC32""),
+    @lengthOf(leftPad)
+    // packet A { u8 x, }
+    Foo @calculatedFrom(""{,}""),
+    uint32 Foo `// not a comment`,
+    f32 float,
+    repeat matchKey,
+    Logon @lengthOf(rootA) `" ++ [28040; 24687; 31867; 22411]%N ++ runes_of_ascii "`,
+}")).
+Eval vm_compute in ("<<<M280>>>" ++ check (runes_of_ascii "options{
+    metadata
+= '0' int = 007 ; zchar
+// " ++ [27880; 37322]%N ++ runes_of_ascii "
+// `tick` ""quote"" 'q'
+=
+'\x00' ;
+    }
+    packet charz {
+@leftPad
+    ( '0'
+    ) @tag(
+42
+    // " ++ [128512]%N ++ runes_of_ascii " emoji
+    ) @calculatedFrom(
+    // " ++ [27880; 37322]%N ++ runes_of_ascii "
+    ""a\""b"" )char[]
+    packetx
+    @calculatedFrom(""\" ++ [233]%N ++ runes_of_ascii """
+    )`
+`
+,	match charz as msg_type  {
+//
+// trailing space 
+4294967296:
+o 0123456789: // packet A { u8 x, }
+trueish ,  ""// no comment"" : asx //x
+[ 65535 ,
+65535 ,
+    3,""a\""b""
+,	""a\\""	,""" ++ [28040; 24687]%N ++ runes_of_ascii """
+, 0123456789 ,
+    ""a	b"" ]
+: T
+,
+}
+, @rightPad (
+' '
+    )
+crc , repeat char[]
+    // packet A { u8 x, }
+    stringy  `a\` , }
+// " ++ [128512]%N ++ runes_of_ascii " emoji
+// " ++ [128512]%N ++ runes_of_ascii " emoji
+MetaData// c
+tag { uint64 metadata ,int64 trueish `{ , }`,
+uint32 a1 , f32 Packet `// not a comment` , }
+")).
+Eval vm_compute in ("<<<M1651>>>" ++ check (runes_of_ascii "// top
+packet A {
+    // c2a
+    // c2b
+    u8 a,// c5
+}
+
+// c6
+packet B {
+    u16 b,
+}
+
+// c13
+packet C {
+    // c16
+    u32 c,// c19
+}// c20a
+
+// c20b
+root packet M {
+    // c24
+    u16 Kc,// c27a
+    // c27b
+    u16 Kb,
+    // c30
+    u16 Ka,// c33a
+    // c33b
+    match Kc as X {
+        9 : A,
+        // c42
+        10 : B,
+        // c46a
+        // c46b
+    },
+    match Kb as Y {
+        // c53
+        2 : C,
+        // c57
+        1 : A,
+        // c61
+    },
+    // c63
+    match Ka as Z {
+        1 : B,
+        // c72
+    },// c74a
+    // c74b
+    A,// c76
+    B,// c78
+    C,
+}
+// c81")).
+Eval vm_compute in ("<<<M1413>>>" ++ check (runes_of_ascii "// top
+root // c0
+packet Frame
+    // c2
+{ // c3a
+  // c3b
+u8
+    // c4
+K // c5
+, // c6a
+  // c6b
+Logon // c7
+first
     // c8
 ,
     // c9
-body
-    // c10
-body
-    // c11
-`" ++ [28040; 24687; 31867; 22411]%N ++ runes_of_ascii "`
+match // c10a
+  // c10b
+K as
     // c12
-,
-    // c13
-}
-    // c14
-root
-    // c15
-packet
-    // c16
-chars
+Body { // c14
+1 : Logon
     // c17
-{
-    // c18
-@lengthOf(
-    // c19
-i64_
-    // c20
-)
-    // c21
-chars
+, // c18
+2 : Logout ,
     // c22
-,
-    // c23
-i8i8
-    // c24
-{
-    // c25
-falsey
-    // c26
-@lengthOf(
-    // c27
-stringy
-    // c28
-)
-    // c29
-`doc`
+} , // c24
+} packet // c26
+Logon // c27a
+  // c27b
+{ // c28a
+  // c28b
+string // c29a
+  // c29b
+user
     // c30
-,
-    // c31
-}
-    // c32
-,
-    // c33
-x
+, // c31a
+  // c31b
+} // c32a
+  // c32b
+packet // c33
+Logout
     // c34
-@lengthOf(
-    // c35
-A
-    // c36
-)
-    // c37
-`crlf
-line`
+{ // c35a
+  // c35b
+u16 // c36a
+  // c36b
+reason ,
     // c38
-,
+}
     // c39
-}
-    // c40
 ")).
-Eval vm_compute in ("<<<M113>>>" ++ check (runes_of_ascii "root packet Pad{ @lengthOf( _x) As i8i8 ,f32 lengthOf
-`a\`	,
-    // " ++ [27880; 37322]%N ++ runes_of_ascii "
-    repeat len  `tab	here` , zchar[ //	t
-3 ] body, int8 matchKey
-    `crlf
-line` ,}
-    MetaData metadata { matchKey  packetx
-    ,
-}
-    packet options1	{ repeat charz `line1
-line2`, int8 options1
-    // " ++ [27880; 37322]%N ++ runes_of_ascii "
-    ,
-    repeat	roots
-{
-repeat	float32	x_y_z `say ""hi""`,	}
-// c
-// a // b
-,int64 options1 // `tick` ""quote"" 'q'
-`line1
-line2` , match  falsey
-as falsey
-    {
-    [ ""// no comment""// packet A { u8 x, }
-, """"]:_x  , 42 : // @lengthOf(
-crc ""packet"" : repeatCount, """ ++ [128512]%N ++ runes_of_ascii """
-    //	t
-    :u8x , ""abc""
-: falsey, } , repeat	float64
-x_y_z `a\`,
-}")).
-Eval vm_compute in ("<<<M4072>>>" ++ check (runes_of_ascii "
-
-  packet 
-i64_ {	@lengthOf(
-Foo
-
-)// `tick` ""quote"" 'q'
-@lengthOf(calculatedFrom
-    )	o 
-        /// triple
-
-@calculatedFrom(
-""{,}""	) ,
-    uint16 lengthOf
-
-@calculatedFrom(  // a // b
-
-""" ++ [128512]%N ++ runes_of_ascii """ )
-, char[007  ]
-
-trueish
-,
-@tag( 
-// c
-	00
-
-// `tick` ""quote"" 'q'
-		)@tag(//	t
-007
-	)
-        // a // b
-
-	// " ++ [128512]%N ++ runes_of_ascii " emoji
-  float
-    @calculatedFrom(
-
-    ""\n""
-)	, charz
-    A , Logon @calculatedFrom(
-    ""// no comment"" )  `
-`  // " ++ [27880; 37322]%N ++ runes_of_ascii "
-, @lengthOf( msg_type
-)BodyLength As
-`a\`
-,
-zchar[ 	 // @lengthOf(
-	10
-	]
-	zchar @calculatedFrom( """" // trailing space 
-  )`doc`
-
-    ,
-}
-")).
-Eval vm_compute in ("<<<M448>>>" ++ check (runes_of_ascii "packet int{ @rightPad (
-) @lengthOf(	zchar )
-    @tag(
-7 ) repeat pack ,
-    match f32a as
-    // @lengthOf(
-    float {255: Foo 7 :Pad
-[ ""it's"" , 007
-    ,
-    // `tick` ""quote"" 'q'
-    """", ""x y"" ,
-""packet"", ""a	b"" ]	: As
-    ,4294967296 : Packet ,""" ++ [28040; 24687]%N ++ runes_of_ascii """ : i64_ , } ,char[] Foo@lengthOf(	u8x )
-`it's`
-,
-    @tag( 007 ) u64 Packet , } options { u128
-    = ""packet""
-//	t
-// packet A { u8 x, }
-}root
-packet leftPad{
-    //	t
-    } root packet msg_type
-{ // packet A { u8 x, }
-@leftPad
-    (
-'0' ) uint64 a1 // " ++ [128512]%N ++ runes_of_ascii " emoji
-, }
-// `tick` ""quote"" 'q'
-")).
-Eval vm_compute in ("<<<M3666>>>" ++ check (runes_of_ascii "// top
-options {
-    // c1
-    chars = ""a\\""
-    // c4
-}
-
-// c5
-packet Z9_ {
-    // c8
-    match BodyLength as roots {
-        // c13
-        """ ++ [28040; 24687]%N ++ runes_of_ascii """ : falsey,
-        // c17
-        00 : u128,
-        // c20
-        0 : len,
-        // c24
-        007 : f32a,
-        // c27
-    },
-    // c29
-    @tag(3)
-    // c32
-    @calculatedFrom(""`tick`"")
-    // c35
-    @leftPad(' ')
-    // c39
-    string asx,
-    // c42
-    string u @lengthOf(options1),
-    // c48
-    float32 i64_ @calculatedFrom(""a\""b""),
-    // c54
-}
-// c55")).
-Eval vm_compute in ("<<<M740>>>" ++ check (runes_of_ascii "packet chars {
-// `tick` ""quote"" 'q'
-// `tick` ""quote"" 'q'
-@lengthOf(trueish ) char[10 ] metadata
-//	t
-// packet A { u8 x, }
-@calculatedFrom(""x y"" )
-    , MetaDataX @lengthOf(
-BodyLength)
-`u8 x,` ,match
-    x
+Eval vm_compute in ("<<<M172>>>" ++ check (runes_of_ascii "// c
+options  {
+i8i8
+    = """ ++ [28040; 24687]%N ++ runes_of_ascii """
     // trailing space 
-    as trueish { 7 /// triple
-: matchKey , }
-    , }root packet	len { // packet A { u8 x, }
-x@lengthOf(Pad // `tick` ""quote"" 'q'
-),
-    asx { pack
-_x , } ,} MetaData // `tick` ""quote"" 'q'
-pack
-    {
-int8 //x
-zchar
-    // @lengthOf(
-    `tab	here`
-,}
-")).
-Eval vm_compute in ("<<<M1046>>>" ++ check (runes_of_ascii "packet  Packet{ float64 x
-@calculatedFrom( ""a\""b"" )
-`u8 x,`
-,
-@rightPad ( '\x00' )
-    @rightPad
-(
-    // " ++ [128512]%N ++ runes_of_ascii " emoji
-    '0' ) @leftPad (
-    ' '
-    ) char[]
-    _x ,	Packet @lengthOf(
-// a // b
-// a // b
-crc ) , repeat float64 leftPad
-    `
-`
-,
-    @leftPad	(
-    '0') matchKey @calculatedFrom( ""{,}"")
-,
-    repeat  body int,
-u16 o, }
-    options{
-A =
-    true leftPad= char[	4294967296 ] ; T  = float64 // trailing space 
-; options1 =
-/// triple
-// a // b
-65535 ; }")).
-Eval vm_compute in ("<<<M3753>>>" ++ check (runes_of_ascii "packet u128 {
-    @rightPad()
-    @tag(7)
-    stringy body,
-}// packet A { u8 x, }
-
-root packet i64_ {
-}
-
-packet falsey {
-    float @lengthOf(_x) `" ++ [233]%N ++ runes_of_ascii "`,
-    i32 a1,
-    u {
-        //	t
-        string crc,
-    },
-    @leftPad()
-    repeat options1 {
-        calculatedFrom @calculatedFrom(""it's"") `{ , }`,
-        zchar falsey `u8 x,`,
-        repeat falsey,
-    },
-}
-
-root packet pack {
-    @tag(0123456789)
-    // @lengthOf(
-    repeat uint32 roots,
-}")).
-Eval vm_compute in ("<<<M1221>>>" ++ check (runes_of_ascii "root packet pack {
-    charz calculatedFrom `{ , }` , match i8i8
-as o
-    { [
-65535
-    // `tick` ""quote"" 'q'
-    ] :
-    len ""CRC32"" :Foo
-,	[ ""a\""b"" ] :Foo """ ++ [128512]%N ++ runes_of_ascii """: options1,}
-    , repeat//
-u64  roots, u8x
-`two words`, zchar // trailing space 
-, trueish , u64 u128 @lengthOf( packetx ) `a\` ,
-@tag(
-    1 )// " ++ [27880; 37322]%N ++ runes_of_ascii "
-uint32 pack @calculatedFrom( ""\n"" )// @lengthOf(
-, @tag( 1 )	float32 // @lengthOf(
-len
-, @tag( 7) float32
-falsey
-    , }
-")).
-Eval vm_compute in ("<<<M414>>>" ++ check (runes_of_ascii "// @lengthOf(
-options
+    ; Pad= ' ' }root packet i8i8{ i64 matchKey`" ++ [233]%N ++ runes_of_ascii "`
+,match repeatCount as x// @lengthOf(
 {
-a1
-    // a // b
-    =false ;
-}root packet options1	{ i64_ @lengthOf( // trailing space 
-matchKey) ,  u64
-Logon `say ""hi""`  ,
-@lengthOf( a1 // packet A { u8 x, }
-)	@calculatedFrom(
-""\" ++ [233]%N ++ runes_of_ascii """ ) // `tick` ""quote"" 'q'
-repeat float32 _x // packet A { u8 x, }
-,@calculatedFrom(	""// no comment"" ) @tag( 7	)
-@calculatedFrom( ""abc"") int16
-    options1 @calculatedFrom( ""CRC32"" ) ,// `tick` ""quote"" 'q'
-}")).
-Eval vm_compute in ("<<<M4154>>>" ++ check (runes_of_ascii "root packet metadata {
-    // packet A { u8 x, }
-    @rightPad(' ')
-    @leftPad('\x00')
-    f64 a1 `u8 x,`,// trailing space 
-    char[7] metadata @lengthOf(Logon),
-    @calculatedFrom(""\n"")
-    char[4294967296] repeatCount,
-    @tag(65535)
-    zchar[255] chars @lengthOf(stringy),
-    zchar {
-        zchar @lengthOf(crc),
-        uint64 Packet `crlf
-                line`,
-    },
-    /// triple
-}")).
-Eval vm_compute in ("<<<M4029>>>" ++ check (runes_of_ascii "root //x
-	  packet	rootA
-{@leftPad
-('\x00' ) @rightPad (
-    ' ')  
-      // a // b
-    	@tag(
-    0 )
-	repeat	zchar[	3
-]
-matchKey  ,  // packet A { u8 x, }
-	} 
-packet u8x {
-
-}options{packetx =
-'0'
-
-Pad
-=  '\x00'  Logon =
-
-    false 
-; }
-	    // " ++ [128512]%N ++ runes_of_ascii " emoji
-		// c
-	MetaData	u8x { i32 rootA
-
-,  MetaDataX
-	zchar`" ++ [233]%N ++ runes_of_ascii "` ,	// packet A { u8 x, }
-
-int64
-	Foo
-`// not a comment`	,	}
-")).
-Eval vm_compute in ("<<<M364>>>" ++ check (runes_of_ascii "packet string_{ repeat
-crc {
-As
-@calculatedFrom( ""// no comment"" ) `" ++ [28040; 24687; 31867; 22411]%N ++ runes_of_ascii "` // trailing space 
-,char x_y_z @lengthOf( Header )
-    `u8 x,`
-, } ,} root packet u128{ stringy// a // b
-@lengthOf( options1 ) , } packet i64_
-// " ++ [128512]%N ++ runes_of_ascii " emoji
-// `tick` ""quote"" 'q'
-{ @lengthOf( u128 )
-@lengthOf(pack
-) char[ 4294967296
-] falsey@calculatedFrom( """ ++ [233]%N ++ runes_of_ascii "t" ++ [233]%N ++ runes_of_ascii """
-// " ++ [27880; 37322]%N ++ runes_of_ascii "
-// trailing space 
-),
-}
-")).
-Eval vm_compute in ("<<<M1351>>>" ++ check (runes_of_ascii "packet  rootA
-    // `tick` ""quote"" 'q'
-    { leftPad @calculatedFrom( ""`tick`""),
-    } root // trailing space 
-packet zchar {
-    char[	3 ] Packet ,	@tag( 3 ) zchar[ 00 ] lengthOf , repeat u128 {
-repeat int64 A ,/// triple
-}
-    ,  @leftPad ( '0' )
-@lengthOf( u
 //	t
-// c
-) @lengthOf(	repeatCount  ) asx {
-repeat int `" ++ [233]%N ++ runes_of_ascii "`,	zchar[ 3
-] u128
-,} , }
-
-")).
-Eval vm_compute in ("<<<M1398>>>" ++ check (runes_of_ascii "
-packet i8i8 // " ++ [27880; 37322]%N ++ runes_of_ascii "
-{@calculatedFrom(
-    """ ++ [233]%N ++ runes_of_ascii "t" ++ [233]%N ++ runes_of_ascii """) @calculatedFrom(	""" ++ [28040; 24687]%N ++ runes_of_ascii """ )
-repeat
-    leftPad {  uint64 A	@lengthOf( pack ) , As@calculatedFrom(""\n"" ) `it's` , i64_ @calculatedFrom( """ ++ [233]%N ++ runes_of_ascii "t" ++ [233]%N ++ runes_of_ascii """
-    ) , u64 u ,
-    } , repeat u8
-/// triple
 // a // b
-Logon `u8 x,` , options1
-    @calculatedFrom("""" ),
-    repeat string packetx `{ , }` , //
-}
+42 : float
+    ,
+007 : u , }
+// trailing space 
+//x
+,
+@calculatedFrom( ""a	b"" ) string_
+// @lengthOf(
+/// triple
+{  matchKey string_
+    ,// trailing space 
+} , repeat char[] repeatCount
+    , }
+options // a // b
+{
+msg_type =
+true ; int
+// " ++ [128512]%N ++ runes_of_ascii " emoji
+// " ++ [27880; 37322]%N ++ runes_of_ascii "
+= u16	string_
+    = false ;}")).
+Eval vm_compute in ("<<<M361>>>" ++ check (runes_of_ascii "// c
+packet float// `tick` ""quote"" 'q'
+{ match tag
+as	x // " ++ [128512]%N ++ runes_of_ascii " emoji
+{
+""\n"" :
+    // a // b
+    A ,
+} , @lengthOf(
+    o ) A  , char[ 4294967296 ] o @lengthOf( // packet A { u8 x, }
+a1 ) , }	packet x {
+    char[
+3 ] BodyLength
+, }
+packet Header { @lengthOf( stringy )
+@tag(42	)@calculatedFrom(""1"" ) zchar[ 0123456789 ] As
+@lengthOf(
+    // a // b
+    packetx ) `// not a comment` , } //	t")).
+Eval vm_compute in ("<<<M1689>>>" ++ check (runes_of_ascii "
+packet stringy { 
+falsey
+    @lengthOf(
+MetaDataX
+) `crlf
+line` , match
+
+tag
+as
+    uint8x
+    {
+""a\""b"" 
+:
+
+charz
+
+    ,
+00 :	repeatCount
+
+    , 10
+
+    :	Header
+	""a	b"" 
+	/// triple
+  :
+Pad
+    ,
+	65535
+:  metadata 
+,	}	,@calculatedFrom(
+""a\""b""
+    )
+    //x
+	char[	255 ]
+falsey ,x_y_z@calculatedFrom(
+""packet"" )
+    `tab	here` ,
+	}
+
 ")).
-Eval vm_compute in ("<<<M4162>>>" ++ check (runes_of_ascii "options {
-    calculatedFrom = '0';
-}
-
-root packet metadata {
-    i64 float @calculatedFrom(""1""),
-    @rightPad()
-    Logon u `crlf
-    line`,// trailing space 
-    falsey Packet `line1
-    line2`,
-    u32 a1 `tab	here`,
-}// " ++ [128512]%N ++ runes_of_ascii " emoji
-
-options {
-    lengthOf = '\x00'
-    msg_type = uint8;
-    repeatCount = 0123456789;
-}//x")).
 Eval vm_compute in ("<<<M360>>>" ++ check (runes_of_ascii "
 packet zchar{
 stringy//
@@ -1804,786 +889,438 @@ char[
 7	] u8x ,
     }
 ")).
-Eval vm_compute in ("<<<M1435>>>" ++ check (runes_of_ascii "root packet Foo // " ++ [128512]%N ++ runes_of_ascii " emoji
-{ } options options {
-    // a // b
-    tag // `tick` ""quote"" 'q'
-= //	t
-""""
-    ; u8x = zchar[0  ] }
-MetaData
-    int {zchar[ 10]
-lengthOf	`` , i64 u8x`// not a comment` ,MetaDataX pack// `tick` ""quote"" 'q'
-`crlf
-line`
-, Logon charz `crlf
-line`
-    ,
-    // a // b
-    }
+Eval vm_compute in ("<<<M1431>>>" ++ check (runes_of_ascii "options {
+    LittleEndian = true;
+    ArrayPrefixLenType = u64;
+    FixedStringPadFromLeft = false;
+}
+packet Quote {
+}
+root packet Order {
+    i64 Side2,
+    Quote,
+    u32 Px,
+    match Px as Body {
+        [119, 147] : Quote,
+    },
+    u16 Flags @calculatedFrom(""CRC32""),
+}
 ")).
-Eval vm_compute in ("<<<M1515>>>" ++ check (runes_of_ascii "root packet Foo // " ++ [128512]%N ++ runes_of_ascii " emoji
-{ } options {
-    // a // b
-    tag // `tick` ""quote"" 'q'
-= //	t
-""""
-    ; u8x = zchar[0  ] }
-MetaData
-    int {zchar[ 10 10]
-lengthOf	`` , i64 u8x`// not a comment` ,MetaDataX pack// `tick` ""quote"" 'q'
-`crlf
-line`
-, Logon charz `crlf
-line`
-    ,
-    // a // b
-    }
-")).
-Eval vm_compute in ("<<<M1616>>>" ++ check (runes_of_ascii "root packet Foo // " ++ [128512]%N ++ runes_of_ascii " emoji
-{ } options {
-    // a // b
-    tag // `tick` ""quote"" 'q'
-= //	t
-""""
-    ; u8x = zchar[0  ] }
-MetaData
-    int {zchar[ 10]
-lengthOf	`` , i64 u8x`// not a comment` ,MetaDataX % pack// `tick` ""quote"" 'q'
-`crlf
-line`
-, Logon charz `crlf
-line`
-    ,
-    // a // b
-    }
-")).
-Eval vm_compute in ("<<<M1471>>>" ++ check (runes_of_ascii "root packet Foo // " ++ [128512]%N ++ runes_of_ascii " emoji
-{ } options {
-    // a // b
-    tag // `tick` ""quote"" 'q'
-= //	t
-""""
-    ; u8x zchar[ =0  ] }
-MetaData
-    int {zchar[ 10]
-lengthOf	`` , i64 u8x`// not a comment` ,MetaDataX pack// `tick` ""quote"" 'q'
-`crlf
-line`
-, Logon charz `crlf
-line`
-    ,
-    // a // b
-    }
-")).
-Eval vm_compute in ("<<<M1439>>>" ++ check (runes_of_ascii "root packet Foo // " ++ [128512]%N ++ runes_of_ascii " emoji
-{ } options 
-    // a // b
-    tag // `tick` ""quote"" 'q'
-= //	t
-""""
-    ; u8x = zchar[0  ] }
-MetaData
-    int {zchar[ 10]
-lengthOf	`` , i64 u8x`// not a comment` ,MetaDataX pack// `tick` ""quote"" 'q'
-`crlf
-line`
-, Logon charz `crlf
-line`
-    ,
-    // a // b
-    }
-")).
-Eval vm_compute in ("<<<M1464>>>" ++ check (runes_of_ascii "root packet Foo // " ++ [128512]%N ++ runes_of_ascii " emoji
-{ } options {
-    // a // b
-    tag // `tick` ""quote"" 'q'
-= //	t
-""""
-    ;  = zchar[0  ] }
-MetaData
-    int {zchar[ 10]
-lengthOf	`` , i64 u8x`// not a comment` ,MetaDataX pack// `tick` ""quote"" 'q'
-`crlf
-line`
-, Logon charz `crlf
-line`
-    ,
-    // a // b
-    }
-")).
-Eval vm_compute in ("<<<M1494>>>" ++ check (runes_of_ascii "root packet Foo // " ++ [128512]%N ++ runes_of_ascii " emoji
-{ } options {
-    // a // b
-    tag // `tick` ""quote"" 'q'
-= //	t
-""""
-    ; u8x = zchar[0  ] }
-
-    int {zchar[ 10]
-lengthOf	`` , i64 u8x`// not a comment` ,MetaDataX pack// `tick` ""quote"" 'q'
-`crlf
-line`
-, Logon charz `crlf
-line`
-    ,
-    // a // b
-    }
-")).
-Eval vm_compute in ("<<<M1128>>>" ++ check (runes_of_ascii "//x
-MetaData
-    // packet A { u8 x, }
-    rootA{
-    //	t
-    zchar[ 42 ]
-    msg_type
-    //
-    ,matchKey
-    trueish , // c
-}  packet charz{ @leftPad
-    ('0')
-    metadata packetx  ,
-    } MetaData	f32a { zchar[
-    007]
-    // a // b
-    rootA,u32 calculatedFrom , }")).
-Eval vm_compute in ("<<<M4521>>>" ++ check (runes_of_ascii "
-root
-
-packet
-charz{ 
-roots
-	falsey 
-, 
-@lengthOf(
-    // packet A { u8 x, }
-  u8x )T
-@lengthOf(	x )
-    `line1
-line2`  /// triple
-	,
-    x
-
-@calculatedFrom( 
-    // a // b
-""// no comment"" 
-)
-    ,
-    @leftPad
+Eval vm_compute in ("<<<M47>>>" ++ check (runes_of_ascii "  root packet rootA { @leftPad
 (
-
-    ' ' ) zchar[0123456789]  string_
-	,}
-
-")).
-Eval vm_compute in ("<<<M509>>>" ++ check (runes_of_ascii "MetaData len
-{ f64 u ,char[] Z9_ `doc` ,metadata
-    // " ++ [27880; 37322]%N ++ runes_of_ascii "
-    A,i64 stringy`line1
-line2` , A int`line1
-line2` // `tick` ""quote"" 'q'
-, f32 i8i8 , }packet
-// c
+'\x00' // `tick` ""quote"" 'q'
+) @lengthOf(
+    crc ) @lengthOf( string_ ) uint16 Z9_ `
+`	, @lengthOf( Z9_ )char[4294967296
+    ]  zchar `say ""hi""` ,
+    u, match
+int as
+    stringy {
+3 :
+    body, }
+    ,	} 	 ")).
+Eval vm_compute in ("<<<M512>>>" ++ check (runes_of_ascii "options
+{
+matchKey = 42/// triple
+x='0' ;
+// packet A { u8 x, }
 //
-stringy/// triple
-{ @calculatedFrom( """ ++ [128512]%N ++ runes_of_ascii """
-    )char[]
-roots, }
-root packet metadata {
-}")).
-Eval vm_compute in ("<<<M600>>>" ++ check (runes_of_ascii "MetaData Header
-{ uint64 lengthOf , int32 packetx , matchKey u8x `say ""hi""`,char[]
-T , packetx options1 , Packet falsey ,} // @lengthOf(
-options// c
-{ u128
-//x
-// " ++ [128512]%N ++ runes_of_ascii " emoji
-=65535	Foo
-    = true } /// triple
-packet int{ }MetaData
-    u {}
-
-")).
-Eval vm_compute in ("<<<M286>>>" ++ check (runes_of_ascii "options{
-} options {
-    } root packet uint8x { @leftPad ('\x00'
-    )
-    match uint8x as	pack {[ ""\n"" ,
-""a	b""
-    ,
-10,
-    // " ++ [27880; 37322]%N ++ runes_of_ascii "
-    255 ,
-// " ++ [27880; 37322]%N ++ runes_of_ascii "
-//	t
-""a	b"" , //x
-"""" ] // " ++ [27880; 37322]%N ++ runes_of_ascii "
-:
-    repeatCount
-    , // c
-}
-    ,// " ++ [128512]%N ++ runes_of_ascii " emoji
-} 	 ")).
-Eval vm_compute in ("<<<M4519>>>" ++ check (runes_of_ascii "
-packet
-
-    falsey 
-{ 
-@leftPad
-	(
-
-    ) // packet A { u8 x, }
-    zchar[
-    007 ]  i8i8
-
-    @calculatedFrom(	""" ++ [28040; 24687]%N ++ runes_of_ascii """
-    ) 
-,  a1
-{	float32 
-Foo@lengthOf(  u8x 
-)  , },
-chars
-
-, 
-repeat
-char[]
-
-roots `" ++ [28040; 24687; 31867; 22411]%N ++ runes_of_ascii "` , 
-}
-")).
-Eval vm_compute in ("<<<M2251>>>" ++ check (runes_of_ascii "MetaData Packet { }packet	asx  { @lengthOf( asx asx) falsey`crlf
-line`
-,
-    }
-    packet x	{uint32// @lengthOf(
-rootA	,u32 options1 `say ""hi""` , @tag( 7
-    )// packet A { u8 x, }
-msg_type @lengthOf(
-stringy	)	, }
-
-")).
-Eval vm_compute in ("<<<M737>>>" ++ check (runes_of_ascii "  MetaData x
-{Foo Header , char[ 0123456789 ] len
-,
-int64 i64_, char[
-    42 ] i8i8,i16 /// triple
-pack , int64 u8x
-    `it's` ,
-    }	packet pack // @lengthOf(
-{ @calculatedFrom( ""// no comment"" )len matchKey
-,}
-")).
-Eval vm_compute in ("<<<M2277>>>" ++ check (runes_of_ascii "MetaData Packet { }packet	asx  { @lengthOf( asx) falsey`crlf
-line`
-,
-    packet
-    } x	{uint32// @lengthOf(
-rootA	,u32 options1 `say ""hi""` , @tag( 7
-    )// packet A { u8 x, }
-msg_type @lengthOf(
-stringy	)	, }
-
-")).
-Eval vm_compute in ("<<<M2305>>>" ++ check (runes_of_ascii "MetaData Packet { }packet	asx  { @lengthOf( asx) falsey`crlf
-line`
-,
-    }
-    packet x	{uint32// @lengthOf(
-rootA	u32 options1 `say ""hi""` , @tag( 7
-    )// packet A { u8 x, }
-msg_type @lengthOf(
-stringy	)	, }
-
-")).
-Eval vm_compute in ("<<<M2330>>>" ++ check (runes_of_ascii "MetaData Packet { }packet	asx  { @lengthOf( asx) falsey`crlf
-line`
-,
-    }
-    packet x	{uint32// @lengthOf(
-rootA	,u32 options1 `say ""hi""` ,  7
-    )// packet A { u8 x, }
-msg_type @lengthOf(
-stringy	)	, }
-
-")).
-Eval vm_compute in ("<<<M603>>>" ++ check (runes_of_ascii "packet
-    // c
-    stringy { u128
-@lengthOf( _x
-)
-,
-match
-    leftPad as i64_ { """ ++ [28040; 24687]%N ++ runes_of_ascii """: T, [
-""" ++ [233]%N ++ runes_of_ascii "t" ++ [233]%N ++ runes_of_ascii """	] : roots 65535// c
-: int}	,@tag( 65535 // c
-)
-    repeat string Logon,
-    // packet A { u8 x, }
-    }
-")).
-Eval vm_compute in ("<<<M1367>>>" ++ check (runes_of_ascii "packet leftPad {
-    //
-    i8 string_@calculatedFrom( ""\" ++ [233]%N ++ runes_of_ascii """ ) `` ,
-repeat MetaDataX {match u128
-    as
-    asx  {""a\\"": T
-, ""CRC32"" :
-    stringy ,
-0 : options1 ,
-    } , }/// triple
-,// " ++ [128512]%N ++ runes_of_ascii " emoji
-}")).
-Eval vm_compute in ("<<<M480>>>" ++ check (runes_of_ascii "MetaData
-    u
-{ string_ BodyLength// packet A { u8 x, }
-,
-char T ``
-,// " ++ [27880; 37322]%N ++ runes_of_ascii "
-u128 Logon , string
-crc
-, u8 matchKey , u8  i64_ // packet A { u8 x, }
-`" ++ [233]%N ++ runes_of_ascii "`
-,
-    // trailing space 
-    } // c")).
-Eval vm_compute in ("<<<M4116>>>" ++ check (runes_of_ascii "MetaData
-options1	{
-packetx x`
-`  ,	//	t
-    }
-options
-    {
-	x_y_z=	true	options1  =char[] 	 // trailing space 
-	; body =
-65535  /// triple
-		lengthOf=""it's""
-
-;
-	x =
-    '\x00'  }
-")).
-Eval vm_compute in ("<<<M242>>>" ++ check (runes_of_ascii "  options{
-    // trailing space 
-    A = ' '
-    ; calculatedFrom
-// c
-// a // b
+charz
 =
-    ""a\""b""
-;
-msg_type  =	char[ 4294967296] ;
-    //
-    rootA
-= '\x00' msg_type	= false }")).
-Eval vm_compute in ("<<<M4095>>>" ++ check (runes_of_ascii "packet f32a {
-    //
-    match o as As {
-        10 : roots,
-        // " ++ [27880; 37322]%N ++ runes_of_ascii "
-        [255, 42, 10, 00] : matchKey,
+// packet A { u8 x, }
+// trailing space 
+true  ; } MetaData BodyLength
+{
+uint8
+pack,zchar[ 1]float ,  float32 float32 x_y_z `` ,u32
+_x,i16 body  , }
+")).
+Eval vm_compute in ("<<<M407>>>" ++ check (runes_of_ascii "options
+{
+matchKey = 42 42/// triple
+x='0' ;
+// packet A { u8 x, }
+//
+charz
+=
+// packet A { u8 x, }
+// trailing space 
+true  ; } MetaData BodyLength
+{
+uint8
+pack,zchar[ 1]float ,  float32 x_y_z `` ,u32
+_x,i16 body  , }
+")).
+Eval vm_compute in ("<<<M578>>>" ++ check (runes_of_ascii "options
+{
+matchKey = 42/// triple
+x='0' ;
+// packet A { u8 x, }
+//
+charz
+=
+// packet A { u8 x, }
+// trailing space 
+true  ; } MetaData BodyLength
+{
+uint8
+pack,zchar[ 1]float ,  float32 x_y_z `` ,u32
+_x,i16 body  , / }
+")).
+Eval vm_compute in ("<<<M434>>>" ++ check (runes_of_ascii "options
+{
+matchKey = 42/// triple
+x='0' ;
+// packet A { u8 x, }
+//
+int64
+=
+// packet A { u8 x, }
+// trailing space 
+true  ; } MetaData BodyLength
+{
+uint8
+pack,zchar[ 1]float ,  float32 x_y_z `` ,u32
+_x,i16 body  , }
+")).
+Eval vm_compute in ("<<<M436>>>" ++ check (runes_of_ascii "options
+{
+matchKey = 42/// triple
+x='0' ;
+// packet A { u8 x, }
+//
+charz
+
+// packet A { u8 x, }
+// trailing space 
+true  ; } MetaData BodyLength
+{
+uint8
+pack,zchar[ 1]float ,  float32 x_y_z `` ,u32
+_x,i16 body  , }
+")).
+Eval vm_compute in ("<<<M471>>>" ++ check (runes_of_ascii "options
+{
+matchKey = 42/// triple
+x='0' ;
+// packet A { u8 x, }
+//
+charz
+=
+// packet A { u8 x, }
+// trailing space 
+true  ; } MetaData BodyLength
+{
+
+pack,zchar[ 1]float ,  float32 x_y_z `` ,u32
+_x,i16 body  , }
+")).
+Eval vm_compute in ("<<<M540>>>" ++ check (runes_of_ascii "options
+{
+matchKey = 42/// triple
+x='0' ;
+// packet A { u8 x, }
+//
+charz
+=
+// packet A { u8 x, }
+// trailing space 
+true  ; } MetaData BodyLength
+{
+uint8
+pack,zchar[ 1]float ,  float32 x_y_z `` ,u32")).
+Eval vm_compute in ("<<<M1412>>>" ++ check (runes_of_ascii "root packet Frame {
+    u8 K,
+    Logon first,
+    match K as Body {
+        1 : Logon,
+        2 : Logout,
     },
 }
-
-options {
-    u128 = 65535
-    Packet = 3;
-}")).
-Eval vm_compute in ("<<<M1307>>>" ++ check (runes_of_ascii "MetaData
-stringy { zchar[ 255 ] u`
-` , // packet A { u8 x, }
-string repeatCount ,
-    As i8i8 `{ , }` ,
-string x_y_z
-    // c
-    , uint16 Pad , uint32
-asx ,
+packet Logon {
+    string user,
+}
+packet Logout {
+    u16 reason,
 }
 ")).
-Eval vm_compute in ("<<<M72>>>" ++ check (runes_of_ascii "packet
-Header//	t
-{ float32
-repeatCount @lengthOf(
-f32a
-/// triple
-// a // b
-) , }options{ As	= true; } packet Pad
-{ @rightPad
-( ' ' ) leftPad
-    , }
+Eval vm_compute in ("<<<M2021>>>" ++ check (runes_of_ascii "
+options
+{ msg_type
+
+    = 
+00 string_ = 
+      // `tick` ""quote"" 'q'
+
+  // c
+  	0
+x
+
+    = zchar[
+255 ];
+    leftPad = false 
+;
+	f32a // @lengthOf(
+    =
+	007 ; 	 // " ++ [27880; 37322]%N ++ runes_of_ascii "
+  }
 ")).
-Eval vm_compute in ("<<<M1097>>>" ++ check (runes_of_ascii "packet	calculatedFrom
-{
-@lengthOf(body)
-    @tag(0123456789)
-@calculatedFrom(
-// trailing space 
-// a // b
-""" ++ [128512]%N ++ runes_of_ascii """ ) options1 `// not a comment` , }
-")).
-Eval vm_compute in ("<<<M4500>>>" ++ check (runes_of_ascii "// top
-options {
-    // c1
-    FixedStringPadFromLeft = true;
-    // c5
+Eval vm_compute in ("<<<M147>>>" ++ check (runes_of_ascii "root packet stringy { @tag( 7 ) @tag( 1
+    ) @rightPad (
+'\x00'
+    )Foo // `tick` ""quote"" 'q'
+x`crlf
+line` ,@calculatedFrom(  ""a	b"" ) roots //x
+`it's`// @lengthOf(
+,
+    }")).
+Eval vm_compute in ("<<<M98>>>" ++ check (runes_of_ascii "root // trailing space 
+packet Foo
+    // " ++ [128512]%N ++ runes_of_ascii " emoji
+    {
+    //x
+    char[] body`crlf
+line`, // " ++ [128512]%N ++ runes_of_ascii " emoji
+} options {
+    _x=  false
+    }
+packet BodyLength	{
+} 	 ")).
+Eval vm_compute in ("<<<M1598>>>" ++ check (runes_of_ascii "options {
+    Logon = ""{,}""
+}//	t
+
+MetaData leftPad {
+    i8 zchar `// not a comment`,
 }
 
-// c6
-root packet P {
-    // c10
-    char[4] z,// c15a
-    // c15b
+MetaData len {
+    char[] u128,
+}// " ++ [27880; 37322]%N ++ runes_of_ascii "
+
+root packet Pad {
 }")).
-Eval vm_compute in ("<<<M4229>>>" ++ check (runes_of_ascii "
-packet 
-o {}
-
-packet
-MetaDataX
-    { 
-} root
-packet 
-u8x 
-{
-    MetaDataX @calculatedFrom(
-
-    ""\n""  ) ,} 	 // packet A { u8 x, }
-")).
-Eval vm_compute in ("<<<M1626>>>" ++ check (runes_of_ascii "root root packet /// triple
-rootA {	i32
-MetaDataX@calculatedFrom( ""CRC32"" ) `line1
-line2` , } MetaData BodyLength {
-u8
-rootA, } // c")).
-Eval vm_compute in ("<<<M1638>>>" ++ check (runes_of_ascii "root packet /// triple
-rootA { {	i32
-MetaDataX@calculatedFrom( ""CRC32"" ) `line1
-line2` , } MetaData BodyLength {
-u8
-rootA, } // c")).
-Eval vm_compute in ("<<<M1649>>>" ++ check (runes_of_ascii "root packet /// triple
-rootA {	i32
-@calculatedFrom(MetaDataX ""CRC32"" ) `line1
-line2` , } MetaData BodyLength {
-u8
-rootA, } // c")).
-Eval vm_compute in ("<<<M1645>>>" ++ check (runes_of_ascii "root packet /// triple
-rootA {	(
-MetaDataX@calculatedFrom( ""CRC32"" ) `line1
-line2` , } MetaData BodyLength {
-u8
-rootA, } // c")).
-Eval vm_compute in ("<<<M1625>>>" ++ check (runes_of_ascii " packet /// triple
-rootA {	i32
-MetaDataX@calculatedFrom( ""CRC32"" ) `line1
-line2` , } MetaData BodyLength {
-u8
-rootA, } // c")).
-Eval vm_compute in ("<<<M3439>>>" ++ check (runes_of_ascii "packet B {
+Eval vm_compute in ("<<<M132>>>" ++ check (runes_of_ascii "packet lengthOf
+{ options1 {	calculatedFrom`line1
+line2`	,
+} ,  @tag(
+4294967296 ) match	_x
+as msg_type	{ ""\" ++ [233]%N ++ runes_of_ascii """ // @lengthOf(
+:  o , },
+}")).
+Eval vm_compute in ("<<<M1385>>>" ++ check (runes_of_ascii "packet A {
     u8 a,
+}
+packet B {
+    u16 b,
 }
 root packet P {
     u8 K,
-    match K as Body {
+    match K as M {
+        1 : A,
         1 : B,
     },
-    u16 L @lengthOf(Body),
 }
 ")).
-Eval vm_compute in ("<<<M4449>>>" ++ check (runes_of_ascii "
+Eval vm_compute in ("<<<M368>>>" ++ check (runes_of_ascii "MetaData Header
+    {
+    f64 lengthOf,zchar[ 7 ] zchar
+// `tick` ""quote"" 'q'
+// `tick` ""quote"" 'q'
+`doc` ,
+len
+x_y_z
+, } 	 ")).
+Eval vm_compute in ("<<<M1849>>>" ++ check (runes_of_ascii "
+packet
+
+    calculatedFrom {@tag(4294967296
+)  u	msg_type ,char[ 
+3  ]
+
+crc @lengthOf( len )
+`u8 x,` 
+,
+// c
+    }")).
+Eval vm_compute in ("<<<M1680>>>" ++ check (runes_of_ascii "  packet
+
+A
+	{ u16
+    len @lengthOf(
+    body )`
+` 
+,  u32
+	crc@calculatedFrom( ""CRC32"" )`
+`, string
+body
+
+    ,
+}")).
+Eval vm_compute in ("<<<M1754>>>" ++ check (runes_of_ascii "
 
   packet
-    crc { repeat int64
-string_
-`" ++ [28040; 24687; 31867; 22411]%N ++ runes_of_ascii "` ,}
-	root
-    packet leftPad
+A
 
-{
-}
+    {match k
+as
 
-    MetaData
-	A
-	{ } 
-        // c")).
-Eval vm_compute in ("<<<M1881>>>" ++ check (runes_of_ascii "packet
-    Pad // a // b
-{ i8i8 @calculatedFrom( ""a	b"") `u8 x,` ,
-} options{ float// " ++ [128512]%N ++ runes_of_ascii " emoji
-= f64 i64_
-/=//	t
-00 }
-")).
-Eval vm_compute in ("<<<M1832>>>" ++ check (runes_of_ascii "packet
-    Pad // a // b
-{ i8i8 @calculatedFrom( ""a	b"") `u8 x,` ,
-} {options float// " ++ [128512]%N ++ runes_of_ascii " emoji
-= f64 i64_
-=//	t
-00 }
-")).
-Eval vm_compute in ("<<<M4067>>>" ++ check (runes_of_ascii "options {
-}
+n { [""a""
 
-MetaData x_y_z {
-    u32 u8x `line1
-        line2`,
-    float64 u `line1
-        line2`,
-}// @lengthOf(")).
-Eval vm_compute in ("<<<M1855>>>" ++ check (runes_of_ascii "packet
-    Pad // a // b
-{ i8i8 @calculatedFrom( ""a	b"") `u8 x,` ,
-} options{ float// " ++ [128512]%N ++ runes_of_ascii " emoji
-= f64 
-=//	t
-00 }
-")).
-Eval vm_compute in ("<<<M799>>>" ++ check (runes_of_ascii "root packet trueish {
-@tag(255
-    )
-    // `tick` ""quote"" 'q'
-    repeat f32a
-    leftPad /// triple
-`doc`,}
-")).
-Eval vm_compute in ("<<<M2965>>>" ++ check (runes_of_ascii "packet A {
-  match k as n {
-    [""a"", ""bb"", ""c c"", ""d"", ""e"", ""f"", ""g"", ""h"", ""i"", ""j""] : B,
-    2 : C
-  },
-}")).
-Eval vm_compute in ("<<<M1864>>>" ++ check (runes_of_ascii "packet
-    Pad // a // b
-{ i8i8 @calculatedFrom( ""a	b"") `u8 x,` ,
-} options{ float// " ++ [128512]%N ++ runes_of_ascii " emoji
-= f64 i64_")).
-Eval vm_compute in ("<<<M3352>>>" ++ check (runes_of_ascii "packet calculatedFrom { @tag( 4294967296 ) u
-// c
-msg_type , char[ 3 ] crc @lengthOf( len ) `u8 x,` , }")).
-Eval vm_compute in ("<<<M2998>>>" ++ check (runes_of_ascii "packet A {
-  match k as n {
-    [1, 22, ""c c"", 4, 5, ""f"", 7, 8, ""i"", 10, 11, ""l""] : B
-    2 : C
-  },
-}")).
-Eval vm_compute in ("<<<M229>>>" ++ check (runes_of_ascii "packet x_y_z { char[
-    // packet A { u8 x, }
-    42 ] A @calculatedFrom( ""`tick`"" ) `it's` , }
-
-")).
-Eval vm_compute in ("<<<M3258>>>" ++ check (runes_of_ascii "packet Logon { @tag( 42 ) @rightPad ( ' ' ) @leftPad ( ) repeat trueish { string T , } , } // c
-")).
-Eval vm_compute in ("<<<M3228>>>" ++ check (runes_of_ascii "packet Logon { @tag( 42 ) @rightPad // c
-( ' ' ) @leftPad ( ) repeat trueish { string T , } , }")).
-Eval vm_compute in ("<<<M109>>>" ++ check (runes_of_ascii "root
-    packet lengthOf { @tag(4294967296 ) @calculatedFrom(
-""" ++ [128512]%N ++ runes_of_ascii """)
-    i32
-msg_type `a\`
-, }
-")).
-Eval vm_compute in ("<<<M3773>>>" ++ check (runes_of_ascii "root packet repeatCount {
-    @lengthOf(Foo)
-    @tag(4294967296)
-    repeat f32 u8x,
-}
-// c")).
-Eval vm_compute in ("<<<M1069>>>" ++ check (runes_of_ascii "MetaData lengthOf // a // b
-{i64 matchKey
-// " ++ [128512]%N ++ runes_of_ascii " emoji
-// packet A { u8 x, }
-`say ""hi""`
-, }")).
-Eval vm_compute in ("<<<M1992>>>" ++ check (runes_of_ascii "root
-packet crc
-    { f32a @calculatedFrom( """ ++ [233]%N ++ runes_of_ascii "t" ++ [233]%N ++ runes_of_ascii """ ) )
-    `say ""hi""`, lengthOf `` ,  }")).
-Eval vm_compute in ("<<<M2039>>>" ++ check (runes_of_ascii "root
-packet crc
-    { f32a @calculatedFrom( """ ++ [233]%N ++ runes_of_ascii "t" ++ [233]%N ++ runes_of_ascii """ ?)
-    `say ""hi""`, lengthOf `` ,  }")).
-Eval vm_compute in ("<<<M2950>>>" ++ check (runes_of_ascii "packet A {
-  match k as n {
-    [1, 22, 007, 4, 5, 66, 7, 8, 9] : B,
-    2 : C
-  },
-}")).
-Eval vm_compute in ("<<<M2929>>>" ++ check (runes_of_ascii "packet A {
-  match k as n {
-    [1, ""bb"", 007, ""d"", 5, ""f"", 7] : B
-    2 : C
-  },
-}")).
-Eval vm_compute in ("<<<M3295>>>" ++ check (runes_of_ascii "packet
-// c
-o { @tag( 42 ) repeat x { char[ 0123456789 ] i64_ , } , } options { }")).
-Eval vm_compute in ("<<<M3327>>>" ++ check (runes_of_ascii "packet o { @tag( 42 ) repeat x { char[ 0123456789 ] i64_ , } , }
-// c
-options { }")).
-Eval vm_compute in ("<<<M1340>>>" ++ check (runes_of_ascii "//x
-packet calculatedFrom
-{ match trueish as int  { ""it's""
-: float	,}
-,
-    }
-")).
-Eval vm_compute in ("<<<M3582>>>" ++ check (runes_of_ascii "packet
-A{ 
-Inner
-{
-u8
-	x `a
-b`
-,Deep
-    {  u8 y
-
-    `a
-b`,
-
-}
-
-, }
-,
-
-}")).
-Eval vm_compute in ("<<<M3719>>>" ++ check (runes_of_ascii "packet A {
-    B b `a
-    b`,
-    B `a
-    b`,
-    repeat B bs `a
-    b`,
-}")).
-Eval vm_compute in ("<<<M779>>>" ++ check (runes_of_ascii "MetaData
-    repeatCount {
-    T matchKey
-    , float Packet
     ,
-    }")).
-Eval vm_compute in ("<<<M2208>>>" ++ check (runes_of_ascii "root
-    // `tick` ""quote"" 'q'
-@tag    packet As { trueish Packet , }
+
+    22,
+
+""c c"" ,
+	4
+	, 
+""e""
+	, 66
+	]
+:	B
+,
+2:
+    C
+}, 
+}
 ")).
-Eval vm_compute in ("<<<M1120>>>" ++ check (runes_of_ascii "MetaData
-    Pad { Foo a1 ,
-f64
-metadata
-    , zchar
-    string_ , }")).
-Eval vm_compute in ("<<<M2824>>>" ++ check (runes_of_ascii "false @rightPad u8x true u64 ] repeat char uint16 [ MetaData options")).
-Eval vm_compute in ("<<<M2163>>>" ++ check (runes_of_ascii "root
-    // `tick` ""quote"" 'q'
-    packet { As trueish Packet , }
-")).
-Eval vm_compute in ("<<<M4497>>>" ++ check (runes_of_ascii "packet As{
-@calculatedFrom( //@lengthOfx
-	""{,}"")	lengthOf , }
-")).
-Eval vm_compute in ("<<<M1897>>>" ++ check (runes_of_ascii "
-packet packet	As { @calculatedFrom(//x
-""{,}""	)lengthOf , } 	 ")).
-Eval vm_compute in ("<<<M2864>>>" ++ check (runes_of_ascii "packet A {
+Eval vm_compute in ("<<<M334>>>" ++ check (runes_of_ascii "// @lengthOf(
+options{ } packet pack  {//
+} options
+    {
+    }MetaData msg_type
+{} root packet repeatCount  {}")).
+Eval vm_compute in ("<<<M900>>>" ++ check (runes_of_ascii "packet A {
   match k as n {
-    [1, 22] : B
+    [""a"", ""bb"", 007, ""d"", ""e"", 66, ""g"", ""h"", 9, ""j"", ""k""] : B,
     2 : C
   },
 }")).
-Eval vm_compute in ("<<<M2861>>>" ++ check (runes_of_ascii "packet A {
+Eval vm_compute in ("<<<M943>>>" ++ check (runes_of_ascii "packet A {
+    Inner {
+        u8 x `a
+
+b`,
+        Deep {
+            u8 y `a
+
+b`,
+        },
+    },
+}")).
+Eval vm_compute in ("<<<M1283>>>" ++ check (runes_of_ascii "packet calculatedFrom { @tag( 4294967296 ) u msg_type , char[ 3 ] crc @lengthOf( len ) // c
+`u8 x,` , }")).
+Eval vm_compute in ("<<<M178>>>" ++ check (runes_of_ascii "packet As {
+int16
+A , }packet u	{ @lengthOf( Pad
+)
+    f64
+    metadata	@lengthOf( a1
+)
+    ,
+}
+")).
+Eval vm_compute in ("<<<M1128>>>" ++ check (runes_of_ascii "// c
+packet Logon { @tag( 42 ) @rightPad ( ' ' ) @leftPad ( ) repeat trueish { string T , } , }")).
+Eval vm_compute in ("<<<M1161>>>" ++ check (runes_of_ascii "packet Logon { @tag( 42 ) @rightPad ( ' ' ) @leftPad ( ) repeat trueish {
+// c
+string T , } , }")).
+Eval vm_compute in ("<<<M1751>>>" ++ check (runes_of_ascii "
+MetaData  _x
+
+{
+zchar[ 4294967296  ] 
+
+// c
+    	lengthOf `// not a comment`
+
+    , }
+")).
+Eval vm_compute in ("<<<M856>>>" ++ check (runes_of_ascii "packet A {
   match k as n {
-    [""a""] : B
+    [1, ""bb"", 007, ""d"", 5, ""f"", 7, ""h""] : B
     2 : C
   },
 }")).
-Eval vm_compute in ("<<<M473>>>" ++ check (runes_of_ascii "packet len {	Logon@calculatedFrom( // a // b
-""a\""b""
-), }")).
-Eval vm_compute in ("<<<M3926>>>" ++ check (runes_of_ascii "MetaData
-	u128
-
-    {
-
-    uint32
-    lengthOf,	}
-
-")).
-Eval vm_compute in ("<<<M4139>>>" ++ check (runes_of_ascii "packet A {
-    u8 x `a
-            b
-          c`,
+Eval vm_compute in ("<<<M865>>>" ++ check (runes_of_ascii "packet A {
+  match k as n {
+    [1, 22, 007, 4, 5, 66, 7, 8, 9] : B
+    2 : C
+  },
 }")).
-Eval vm_compute in ("<<<M3771>>>" ++ check (runes_of_ascii "packet msg_type {
-    zchar[00] _x,
-}// @lengthOf(")).
-Eval vm_compute in ("<<<M2264>>>" ++ check (runes_of_ascii "MetaData Packet { }packet	asx  { @lengthOf( asx)")).
-Eval vm_compute in ("<<<M2847>>>" ++ check (runes_of_ascii "options i32 @rightPad { } ] 255 ; int8 as f64 ,")).
-Eval vm_compute in ("<<<M1121>>>" ++ check (runes_of_ascii "options{ MetaDataX=// @lengthOf(
-true
-    ; }")).
-Eval vm_compute in ("<<<M3053>>>" ++ check (runes_of_ascii "options {
-    a = ""x\
-y"";
-    b = ""x\
-y""
+Eval vm_compute in ("<<<M1212>>>" ++ check (runes_of_ascii "packet o { // c
+@tag( 42 ) repeat x { char[ 0123456789 ] i64_ , } , } options { }")).
+Eval vm_compute in ("<<<M1244>>>" ++ check (runes_of_ascii "packet o { @tag( 42 ) repeat x { char[ 0123456789 ] i64_ , } , } options { // c
 }")).
-Eval vm_compute in ("<<<M1913>>>" ++ check (runes_of_ascii "
-packet	As { f32//x
-""{,}""	)lengthOf , } 	 ")).
-Eval vm_compute in ("<<<M4524>>>" ++ check (runes_of_ascii "
-
-  // " ++ [128512]%N ++ runes_of_ascii " emoji
-	packet
-f32a
-
-    {
-	}
-")).
-Eval vm_compute in ("<<<M3195>>>" ++ check (runes_of_ascii "MetaData zchar {
+Eval vm_compute in ("<<<M663>>>" ++ check (runes_of_ascii "// c
+packet i64_ {	char[] calculatedFrom , } packet
+trueish  {@calculatedFrom(")).
+Eval vm_compute in ("<<<M291>>>" ++ check (runes_of_ascii "options
+    { }
+    packet
+    string_ {@rightPad ( '0'// c
+)
+u16 body , }")).
+Eval vm_compute in ("<<<M807>>>" ++ check (runes_of_ascii "packet A {
+  match k as n {
+    [1, 22, ""c c"", 4] : B,
+    2 : C
+  },
+}")).
+Eval vm_compute in ("<<<M1326>>>" ++ check (runes_of_ascii "MetaData _x { zchar[ 4294967296 ] lengthOf `// not a comment` ,
 // c
-zchar[ 3 ] Pad , }")).
-Eval vm_compute in ("<<<M2606>>>" ++ check (runes_of_ascii "packet A { match k as n { [1,] : B }, }")).
-Eval vm_compute in ("<<<M4068>>>" ++ check (runes_of_ascii "options {
-    int = ""\" ++ [233]%N ++ runes_of_ascii """// " ++ [128512]%N ++ runes_of_ascii " emoji
-}//")).
-Eval vm_compute in ("<<<M2613>>>" ++ check (runes_of_ascii "packet A { match k as n { x : B }, }")).
-Eval vm_compute in ("<<<M2615>>>" ++ check (runes_of_ascii "packet A { match k as n { 1 B }, }")).
-Eval vm_compute in ("<<<M2249>>>" ++ check (runes_of_ascii "MetaData Packet { }packet	asx  {")).
-Eval vm_compute in ("<<<M4219>>>" ++ check (runes_of_ascii "root packet P {
-    string s,
 }")).
-Eval vm_compute in ("<<<M3133>>>" ++ check (runes_of_ascii "packet A {
- u8 x `d" ++ [8203]%N ++ runes_of_ascii "`, // c" ++ [8203]%N ++ runes_of_ascii "
-}")).
-Eval vm_compute in ("<<<M2074>>>" ++ check (runes_of_ascii "MetaData A { u64 pack char }")).
-Eval vm_compute in ("<<<M2778>>>" ++ check ([65533; 28]%N ++ runes_of_ascii "#" ++ [65533; 65533]%N ++ runes_of_ascii "]" ++ [65533]%N ++ runes_of_ascii "L)" ++ [65533; 65533]%N ++ runes_of_ascii "." ++ [65533; 127]%N ++ runes_of_ascii "t" ++ [65533; 65533; 16]%N ++ runes_of_ascii ":H""*" ++ [65533; 65533]%N ++ runes_of_ascii "S" ++ [65533; 65533]%N)).
-Eval vm_compute in ("<<<M2721>>>" ++ check (runes_of_ascii ", 42 { int16 options false")).
-Eval vm_compute in ("<<<M3388>>>" ++ check (runes_of_ascii "packet lengthOf { } // c
+Eval vm_compute in ("<<<M322>>>" ++ check (runes_of_ascii "root packet matchKey { } packet msg_type{	char[ 65535]
+falsey ,}
 ")).
-Eval vm_compute in ("<<<M3276>>>" ++ check (runes_of_ascii "options { u8x
-// c
-= 3 }")).
-Eval vm_compute in ("<<<M2792>>>" ++ check (runes_of_ascii "uint16 ; MetaData f64 (")).
-Eval vm_compute in ("<<<M69>>>" ++ check (runes_of_ascii "options	{ i64_ =00 }
+Eval vm_compute in ("<<<M947>>>" ++ check (runes_of_ascii "packet A {
+    B b `x
+`,
+    B `x
+`,
+    repeat B bs `x
+`,
+}")).
+Eval vm_compute in ("<<<M1505>>>" ++ check (runes_of_ascii "root packet
+    P
+    {  char
+    c
+    ,
+	u8
+    x ,}
 ")).
-Eval vm_compute in ("<<<M609>>>" ++ check (runes_of_ascii "packet	Foo{
-    } 	 ")).
-Eval vm_compute in ("<<<M2770>>>" ++ check ([65533]%N ++ runes_of_ascii "9" ++ [20; 65533; 11; 23; 5; 2; 65533; 65533; 65533]%N ++ runes_of_ascii "
-" ++ [65533; 65533; 65533; 27]%N ++ runes_of_ascii "b" ++ [65533; 17]%N)).
-Eval vm_compute in ("<<<M2764>>>" ++ check (runes_of_ascii "p*ytL24P\39v6K0pl$")).
-Eval vm_compute in ("<<<M3132>>>" ++ check (runes_of_ascii "// c" ++ [8203]%N ++ runes_of_ascii "
-packet A {
-}")).
-Eval vm_compute in ("<<<M3074>>>" ++ check (runes_of_ascii "packet A {
-}// c" ++ [133]%N)).
-Eval vm_compute in ("<<<M707>>>" ++ check (runes_of_ascii "  options{} //x")).
-Eval vm_compute in ("<<<M4330>>>" ++ check (runes_of_ascii "packet len {
-}")).
-Eval vm_compute in ("<<<M2826>>>" ++ check (runes_of_ascii "W" ++ [14; 65533]%N ++ runes_of_ascii "3" ++ [65533; 1970; 65533; 65533]%N ++ runes_of_ascii "HU>")).
-Eval vm_compute in ("<<<M2463>>>" ++ check (runes_of_ascii "metadata")).
-Eval vm_compute in ("<<<M2432>>>" ++ check (runes_of_ascii "zchar[")).
-Eval vm_compute in ("<<<M2471>>>" ++ check (runes_of_ascii "'\x0'")).
-Eval vm_compute in ("<<<M50>>>" ++ check (runes_of_ascii "//
+Eval vm_compute in ("<<<M342>>>" ++ check (runes_of_ascii "packet o{ char[0123456789 ] asx `doc`
+    ,	}
+")).
+Eval vm_compute in ("<<<M1104>>>" ++ check (runes_of_ascii "MetaData // c
+zchar { zchar[ 3 ] Pad , }")).
+Eval vm_compute in ("<<<M425>>>" ++ check (runes_of_ascii "options
+{
+matchKey = 42/// triple
+x=")).
+Eval vm_compute in ("<<<M1885>>>" ++ check (runes_of_ascii "
+root
+	packet  A	{ u8
 
+x
+`
+`,	}
 ")).
-Eval vm_compute in ("<<<M2437>>>" ++ check (runes_of_ascii "u80")).
-Eval vm_compute in ("<<<M2133>>>" ++ check (runes_of_ascii "Me")).
-Eval vm_compute in ("<<<M2554>>>" ++ check ([21517]%N)).
+Eval vm_compute in ("<<<M987>>>" ++ check (runes_of_ascii "packet A {
+ u8 x `d" ++ [160]%N ++ runes_of_ascii "`, // c" ++ [160]%N ++ runes_of_ascii "
+}")).
+Eval vm_compute in ("<<<M946>>>" ++ check (runes_of_ascii "packet A {
+    u8 x `x
+`,
+}")).
+Eval vm_compute in ("<<<M1192>>>" ++ check (runes_of_ascii "options { u8x =
+// c
+3 }")).
+Eval vm_compute in ("<<<M746>>>" ++ check (runes_of_ascii """1"" float64 { packet")).
+Eval vm_compute in ("<<<M1010>>>" ++ check (runes_of_ascii "packet A {
+}
+// c" ++ [8232]%N)).
+Eval vm_compute in ("<<<M993>>>" ++ check (runes_of_ascii "packet A {
+}// c" ++ [5760]%N)).
+Eval vm_compute in ("<<<M1919>>>" ++ check (runes_of_ascii "options {  }")).
+Eval vm_compute in ("<<<M1024>>>" ++ check (runes_of_ascii "// c" ++ [8287]%N)).
